@@ -1,4 +1,32 @@
-(* C17 (behavioural form) and C18 (one value per Next) for the UBJSON parser model. *)
+(* C17 (behavioural form) and C18 (one value per Next, call-by-call script independence,
+   streams of documents) for the UBJSON parser model (Ubjson/Parse.v).
+   All theorems are closed under the global context.
+
+   C17  veq p q: all fields equal except up_vtype (the cached element type of the last typed
+        container).  uexec_svt: one execStep does not depend on up_vtype except in state
+        (stArrayTyped, stWithLen), and overwrites it in (st*Typed, stStart); step_rel: related
+        parsers stay related, with the invariant "in the states between the write and the read
+        of up_vtype the two runs are EQUAL" (rel; pass ubody0_Y: those states are reached from
+        (stArrayTyped, stStart) only).
+        C17_ubj_parse_vtype_dead, C17_ubj_writes_vtype_dead: same events, same verdict, same
+        failure, veq-related final parsers, for every visitor behaviour.
+        C17_ubj_session_step / C17_ubj_session (guard no_zero_typed, via ParseSafety.ext3b) and
+        C17_ubj_session_step_noguard / C17_ubj_session_noguard / C17_ubj_run_*_fresh_noguard
+        (no premise on the input): a reused parser behaves as a new one, and after ANY accepted
+        input it is fresh-like again: state stack, valueState stack (pass ubody0_V) and length
+        stack (lshape, pass ubody0_Y) are empty, no buffer / marker / error is pending.
+   C18  mrun_tree: a monitor for "the events of exactly one value"; step_mon (pass ubody0_X):
+        the events of one execStep drive the monitor from the state of the parser before the
+        step to the state after it, and done is returned exactly when the monitor finishes.
+        C18_ubj_next_tree, C18_ubj_next_one_value: a Next that returns nil delivered the events
+        of exactly one tree (and consumed input).
+        exec_done_ext: a step that reports done is the same step on every longer input (only the
+        first alternative of ChunkProofs.Dich is possible).
+        udec_next_sound: Next computes NextW (parser, bytes still to come);
+        C18_ubj_script_independent_next, C18_ubj_script_independent, C18_ubj_scripts_same_data_next,
+        C18_ubj_reader_as_bytes_next: same events and verdict for EACH call of Next.
+        C18_ubj_reader_stream(_partial): a stream of k documents accepted by the reference
+        decoder: k calls deliver the k trees, the next call reports io.EOF. *)
 From Coq Require Import Setoid List NArith ZArith Bool Lia.
 From Coq Require Import ZifyBool ZifyNat ZifyN.
 From SF Require Import Base.Prelude Core.Events Core.EventsProofs Ubjson.Spec Ubjson.Parse Ubjson.ChunkProofs
@@ -875,6 +903,1762 @@ Proof.
     apply unil_true in Ee. subst e0. apply IH; [|exact Hz2]. apply (B p1 s0 Hz1 eq_refl).
 Qed.
 
+
+(* ====================================================================== *)
+(* Part 4: a monitor for "the events of exactly one value"                 *)
+(* ====================================================================== *)
+(* open containers, innermost first: array, object waiting for a key, object waiting for a value *)
+Inductive mfr := MA | MK | MV.
+Inductive mstate := Run (m : list mfr) | Fin.
+
+(* a value has been completed in the context r *)
+Definition marrive (r : list mfr) : option mstate :=
+  match r with
+  | [] => Some Fin
+  | MA :: r' => Some (Run (MA :: r'))
+  | MV :: r' => Some (Run (MK :: r'))
+  | MK :: _ => None
+  end.
+Definition mtakes (m : list mfr) : bool := match m with MK :: _ => false | _ => true end.
+
+Definition mstep (m : list mfr) (e : event) : option mstate :=
+  match e with
+  | EVal _ | EStrRef _ | EXArr _ _ | EXObj _ _ => marrive m
+  | EArrStart _ _ => if mtakes m then Some (Run (MA :: m)) else None
+  | EObjStart _ _ => if mtakes m then Some (Run (MK :: m)) else None
+  | EArrEnd => match m with MA :: r => marrive r | _ => None end
+  | EObjEnd => match m with MK :: r => marrive r | _ => None end
+  | EKey _ | EKeyRef _ => match m with MK :: r => Some (Run (MV :: r)) | _ => None end
+  end.
+
+Fixpoint mrun (st : mstate) (l : list event) : option mstate :=
+  match l with
+  | [] => Some st
+  | e :: l' =>
+      match st with
+      | Fin => None
+      | Run m => match mstep m e with Some st' => mrun st' l' | None => None end
+      end
+  end.
+
+Lemma mrun_app : forall l1 l2 st st1, mrun st l1 = Some st1 -> mrun st (l1 ++ l2) = mrun st1 l2.
+Proof.
+  induction l1 as [|e l1 IH]; intros l2 st st1 H; cbn [mrun app] in *.
+  - inversion H. reflexivity.
+  - destruct st as [m|]; [|discriminate]. destruct (mstep m e) as [st'|]; [|discriminate].
+    apply IH. exact H.
+Qed.
+
+Lemma mrun_fin : forall l st, mrun Fin l = Some st -> l = [] /\ st = Fin.
+Proof. intros [|e l] st H; cbn in H; [inversion H; auto|discriminate]. Qed.
+
+(* Fin is reached only through an event; Run [] only without one *)
+Lemma mstep_nonempty : forall m e m', mstep m e = Some (Run m') -> m' <> [].
+Proof.
+  intros m e m' H. assert (A : forall r, marrive r = Some (Run m') -> m' <> []).
+  { intros [|[| |] r] K; cbn in K; inversion K; discriminate. }
+  destruct e; cbn [mstep] in H; try (apply (A _ H)).
+  - destruct (mtakes m); inversion H; discriminate.
+  - destruct m as [|[| |] r]; try discriminate; apply (A _ H).
+  - destruct (mtakes m); inversion H; discriminate.
+  - destruct m as [|[| |] r]; try discriminate; apply (A _ H).
+  - destruct m as [|[| |] r]; inversion H; discriminate.
+  - destruct m as [|[| |] r]; inversion H; discriminate.
+Qed.
+
+Lemma mrun_nonempty : forall l st m', mrun st l = Some (Run m') -> l <> [] -> m' <> [].
+Proof.
+  induction l as [|e l IH]; intros st m' H Hl; [congruence|].
+  cbn [mrun] in H. destruct st as [m|]; [|discriminate].
+  destruct (mstep m e) as [st'|] eqn:E; [|discriminate].
+  destruct l as [|e2 l2].
+  - cbn in H. inversion H; subst. eapply mstep_nonempty; eauto.
+  - eapply IH; [exact H|discriminate].
+Qed.
+
+Lemma mrun_Fin_nonempty : forall l m, mrun (Run m) l = Some Fin -> l <> [].
+Proof. intros [|e l] m H; [discriminate|discriminate]. Qed.
+
+(* ---------- soundness: ghost frames with the subtrees completed so far ---------- *)
+Inductive gfr :=
+| GA (len : Z) (bt : btype) (done : list tree)
+| GO (len : Z) (bt : btype) (done : list (bytes * bool * tree)) (key : option (bytes * bool)).
+
+Definition gshape (f : gfr) : mfr :=
+  match f with GA _ _ _ => MA | GO _ _ _ None => MK | GO _ _ _ (Some _) => MV end.
+Definition gev (f : gfr) : list event :=
+  match f with
+  | GA len bt done => EArrStart len bt :: flatten_elems (rev done)
+  | GO len bt done key => EObjStart len bt :: flatten_members (rev done) ++
+                          match key with Some (k, r) => [key_event k r] | None => [] end
+  end.
+Fixpoint oev (G : list gfr) : list event :=
+  match G with [] => [] | f :: G' => oev G' ++ gev f end.
+
+Definition gres (G : list gfr) (l : list event) (st : mstate) : Prop :=
+  match st with
+  | Run m' => exists G', m' = map gshape G' /\ oev G' = oev G ++ l
+  | Fin => exists t, oev G ++ l = flatten t
+  end.
+
+Lemma garrive : forall G st t, marrive (map gshape G) = Some st -> gres G (flatten t) st.
+Proof.
+  intros [|[len bt done|len bt done [[k r]|]] G'] st t H; cbn [map gshape marrive] in H; inversion H; subst; cbn [gres].
+  - exists t. reflexivity.
+  - exists (GA len bt (t :: done) :: G'). split; [reflexivity|].
+    cbn [oev gev rev]. unfold flatten_elems. rewrite flat_map_app. cbn [flat_map].
+    repeat (rewrite <- app_assoc || rewrite app_nil_r || rewrite <- app_comm_cons). reflexivity.
+  - exists (GO len bt ((k, r, t) :: done) None :: G'). split; [reflexivity|].
+    cbn [oev gev rev]. unfold flatten_members. rewrite flat_map_app. cbn [flat_map].
+    repeat (rewrite <- app_assoc || rewrite app_nil_r || rewrite <- app_comm_cons). reflexivity.
+Qed.
+
+Lemma gres_shift : forall G f l st, gres G (gev f ++ l) st -> gres (f :: G) l st.
+Proof.
+  intros G f l [m'|] H; cbn [gres oev] in *.
+  - destruct H as (G' & A & B). exists G'. split; [exact A|]. rewrite B, <- app_assoc. reflexivity.
+  - destruct H as (t & B). exists t. rewrite <- B, <- app_assoc. reflexivity.
+Qed.
+
+Lemma mtakes_shape : forall G, mtakes (map gshape G) = true -> True.
+Proof. auto. Qed.
+
+Lemma mstep_sound : forall G e st, mstep (map gshape G) e = Some st -> gres G [e] st.
+Proof.
+  intros G e st H. destruct e; cbn [mstep] in H.
+  - pose proof (garrive G st (TVal s false) H) as K. destruct s; exact K.
+  - exact (garrive G st (TVal (SStr s) true) H).
+  - destruct (mtakes _); [|discriminate]. inversion H; subst. cbn [gres].
+    exists (GA len bt [] :: G). split; [reflexivity|]. reflexivity.
+  - destruct G as [|[len bt done|len bt done [[k r]|]] G']; cbn [map gshape] in H; try discriminate H.
+    apply gres_shift. pose proof (garrive G' st (TArr len bt (rev done)) H) as K.
+    rewrite flatten_arr in K. exact K.
+  - destruct (mtakes _); [|discriminate]. inversion H; subst. cbn [gres].
+    exists (GO len bt [] None :: G). split; [reflexivity|]. reflexivity.
+  - destruct G as [|[len bt done|len bt done [[k r]|]] G']; cbn [map gshape] in H; try discriminate H.
+    apply gres_shift. pose proof (garrive G' st (TObj len bt (rev done)) H) as K.
+    rewrite flatten_obj in K. cbn [gev]. rewrite app_nil_r. exact K.
+  - destruct G as [|[len bt done|len bt done [[k0 r]|]] G']; cbn [map gshape] in H; try discriminate H.
+    inversion H; subst. cbn [gres]. exists (GO len bt done (Some (k, false)) :: G'). split; [reflexivity|].
+    cbn [oev gev key_event]. rewrite !app_nil_r, <- !app_assoc. reflexivity.
+  - destruct G as [|[len bt done|len bt done [[k0 r]|]] G']; cbn [map gshape] in H; try discriminate H.
+    inversion H; subst. cbn [gres]. exists (GO len bt done (Some (k, true)) :: G'). split; [reflexivity|].
+    cbn [oev gev key_event]. rewrite !app_nil_r, <- !app_assoc. reflexivity.
+  - exact (garrive G st (TXArr bt elems) H).
+  - exact (garrive G st (TXObj bt members) H).
+Qed.
+
+Lemma mrun_sound : forall l G st, mrun (Run (map gshape G)) l = Some st -> gres G l st.
+Proof.
+  induction l as [|e l IH]; intros G st H; cbn [mrun] in H.
+  - inversion H; subst. cbn [gres]. exists G. rewrite app_nil_r. auto.
+  - destruct (mstep (map gshape G) e) as [st1|] eqn:E; [|discriminate].
+    pose proof (mstep_sound G e st1 E) as K.
+    destruct st1 as [m1|].
+    + cbn [gres] in K. destruct K as (G1 & -> & B). specialize (IH G1 st H).
+      destruct st as [m'|]; cbn [gres] in *.
+      * destruct IH as (G' & A' & B'). exists G'. split; [exact A'|]. rewrite B', B, <- app_assoc. reflexivity.
+      * destruct IH as (t & B'). exists t. rewrite <- B', B, <- app_assoc. reflexivity.
+    + apply mrun_fin in H. destruct H as [-> ->]. exact K.
+Qed.
+
+(* the monitor accepts exactly ... at least: whatever it accepts is the stream of one tree *)
+Theorem mrun_tree : forall l, mrun (Run []) l = Some Fin -> exists t, l = flatten t.
+Proof.
+  intros l H. pose proof (mrun_sound l [] Fin H) as K. cbn [gres oev app] in K.
+  destruct K as (t & K). exists t. exact K.
+Qed.
+
+(* ====================================================================== *)
+(* Part 5: one pass over execStep - the events it emits drive the monitor, *)
+(* and the done flag is "the monitor has finished"                         *)
+(* ====================================================================== *)
+(* the monitor state of a parser: the open containers of the current state and of the state stack *)
+Definition mcur (c : ustate) : list mfr :=
+  if PS.st_in c [(6,0);(6,16);(7,16);(8,16)] then [MA]
+  else if PS.st_in c [(10,0);(10,18);(11,17);(11,18);(12,17);(12,18)] then [MK]
+  else if PS.st_in c [(10,16);(11,16);(12,16)] then [MV] else [].
+Definition mstk1 (c : ustate) : list mfr :=
+  if PS.st_in c [(6,16);(7,16);(8,16)] then [MA]
+  else if PS.st_in c [(10,0);(11,17);(12,17)] then [MV] else [].
+Fixpoint mstk (l : list ustate) : list mfr :=
+  match l with [] => [] | c :: r => mstk1 c ++ mstk r end.
+Definition mst (p : uparser) : list mfr := mcur (up_cur p) ++ mstk (up_stack p).
+
+(* stNext is at the bottom of the state stack and nowhere else *)
+Fixpoint wfs (l : list ustate) : bool :=
+  match l with
+  | [] => false
+  | c :: l' => match l' with [] => u_t c =? 1 | _ :: _ => negb (u_t c =? 1) && wfs l' end
+  end.
+Definition WF (p : uparser) : Prop := wfs (up_cur p :: up_stack p) = true.
+
+Lemma wfs_cons2 : forall c c2 r, wfs (c :: c2 :: r) = negb (u_t c =? 1) && wfs (c2 :: r).
+Proof. reflexivity. Qed.
+Lemma wfs_one : forall c, wfs [c] = (u_t c =? 1).
+Proof. reflexivity. Qed.
+Lemma mstk_cons : forall c r, mstk (c :: r) = mstk1 c ++ mstk r.
+Proof. reflexivity. Qed.
+Lemma mstk_nil : mstk [] = [].
+Proof. reflexivity. Qed.
+
+Lemma mtakes_mstk : forall l, mtakes (mstk l) = true.
+Proof.
+  induction l as [|c r IH]; [reflexivity|]. rewrite mstk_cons. unfold mstk1.
+  destruct (PS.st_in c _); [reflexivity|]. destruct (PS.st_in c _); [reflexivity|]. exact IH.
+Qed.
+
+Lemma vstate_factsX : forall c, PS.st_in c PS.vstates = true -> mcur c = [] /\ (u_t c =? 1) = false.
+Proof.
+  intros [t s] H. apply PS.st_in_In in H. cbn in H.
+  repeat (destruct H as [H|H]; [injection H as <- <-; split; reflexivity|]). contradiction.
+Qed.
+Lemma fresh_factsX : forall c, PS.st_in c PS.fresh_states = true -> mcur c = [] /\ (u_t c =? 1) = false.
+Proof. intros c H. apply vstate_factsX. apply PS.fresh_vstate. exact H. Qed.
+
+Lemma zlen_cons_nz : forall (A : Type) (x : A) l, (zlen (x :: l) =? 0) = false.
+Proof. intros. unfold zlen. cbn [length]. lia. Qed.
+
+Definition postX (n : nat) (m : list mfr) (s : sink) (r : ures) : Prop :=
+  match r with
+  | UCrash _ => True
+  | UR p1 s1 rest d e => unil e = true ->
+      exists l, s1 = s_add s l /\ WF p1 /\ (n <= S (length (up_stack p1)))%nat /\
+                (d = true -> up_stack p1 = []) /\
+                mrun (Run m) l = Some (if d then Fin else Run (mst p1))
+  end.
+
+Lemma postX_latch : forall n m s r, postX n m s r -> postX n m s (PS.latch r).
+Proof.
+  intros n m s [p1 s1 rest d err|w] H; cbn [PS.latch]; [|exact H].
+  destruct (unil err) eqn:E; [exact H|]. cbn [postX]. intro H1. congruence.
+Qed.
+
+(* the element step of a typed array, after the events l0 of the array step itself *)
+Lemma postX_pre : forall n n' m m' s l0 r,
+  mrun (Run m) l0 = Some (Run m') -> (n <= n')%nat -> (2 <= n')%nat ->
+  postX n' m' (s_add s l0) r -> postX n m s (value_nodone r).
+Proof.
+  intros n n' m m' s l0 [p1 s1 rest d e|w] Hm Hn H2 H; [|exact I]. cbn [value_nodone postX] in *.
+  intros Hu. destruct (H Hu) as (l & -> & Hw & Hlen & Hd & Hr).
+  destruct d.
+  - exfalso. rewrite (Hd eq_refl) in Hlen. cbn [length] in Hlen. lia.
+  - exists (l0 ++ l). rewrite s_add_add. split; [reflexivity|]. split; [exact Hw|]. split; [lia|].
+    split; [discriminate|]. rewrite (mrun_app _ _ _ _ Hm). exact Hr.
+Qed.
+
+Lemma postX_pre0 : forall n n' m m' s r,
+  m = m' -> (n <= n')%nat -> (2 <= n')%nat -> postX n' m' s r -> postX n m s (value_nodone r).
+Proof.
+  intros n n' m m' s r -> Hn H2 H. apply (postX_pre n n' m' m' s [] r); [reflexivity|exact Hn|exact H2|].
+  rewrite s_add_nil. exact H.
+Qed.
+
+Definition uerr (s : sink) (e : event) : Z := snd (uvis s e).
+Lemma uvis_eq : forall s e, uvis s e = (s_add s [e], uerr s e).
+Proof. intros s e. unfold uerr, uvis. rewrite emit_spec. reflexivity. Qed.
+
+Lemma ustep_value_specX : forall p s x r,
+  exists p1 s1 rest d err, ustep_value p s (x :: r) = UR p1 s1 rest d err /\
+    (unil err = true ->
+       (p1 = p /\ s1 = s /\ d = false /\ x = mN) \/
+       (p1 = p /\ d = true /\ exists sc, s1 = s_add s [EVal sc]) \/
+       (exists st, PS.st_in st PS.fresh_states = true /\ p1 = u_push p st /\ s1 = s /\ d = false)).
+Proof.
+  intros p s x r. unfold ustep_value.
+  destruct (marker_state x) as [st|] eqn:Em.
+  2:{ eexists _, _, _, _, _. split; [reflexivity|]. intro H; discriminate H. }
+  assert (Hst : PS.st_in st ((2,1) :: (2,2) :: (2,3) :: (2,4) :: PS.fresh_states) = true).
+  { unfold marker_state in Em.
+    repeat match type of Em with (if ?c then _ else _) = _ => destruct c end;
+    try discriminate Em; injection Em as <-; reflexivity. }
+  destruct (u_s st =? sNil) eqn:E1.
+  { rewrite uvis_eq. eexists _, _, _, _, _. split; [reflexivity|]. intros _. right; left. eauto. }
+  destruct (u_s st =? sNoop) eqn:E2.
+  { eexists _, _, _, _, _. split; [reflexivity|]. intros _; left. repeat split.
+    unfold marker_state in Em.
+    repeat match type of Em with (if ?c then _ else _) = _ => destruct c eqn:? end;
+      try discriminate Em; injection Em as <-; try discriminate E2.
+    apply Z.eqb_eq. assumption. }
+  destruct (u_s st =? sTrue) eqn:E3.
+  { rewrite uvis_eq. eexists _, _, _, _, _. split; [reflexivity|]. intros _. right; left. eauto. }
+  destruct (u_s st =? sFalse) eqn:E4.
+  { rewrite uvis_eq. eexists _, _, _, _, _. split; [reflexivity|]. intros _. right; left. eauto. }
+  eexists _, _, _, _, _. split; [reflexivity|]. intros _; right; right. exists st. split; [|auto].
+  apply PS.st_in_In in Hst. unfold sNil, sNoop, sTrue, sFalse in *.
+  cbn [In PS.fresh_states] in Hst.
+  repeat (destruct Hst as [Hst|Hst]; [injection Hst as Ht Hs; destruct st as [t0 s0]; cbn [u_t u_s] in *; subst; try discriminate; reflexivity|]).
+  contradiction.
+Qed.
+
+Arguments mcur : simpl never.
+Arguments mstk1 : simpl never.
+Arguments mstk : simpl never.
+Arguments mst : simpl never.
+Arguments wfs : simpl never.
+Arguments WF : simpl never.
+Arguments mtakes : simpl never.
+Arguments s_add : simpl never.
+
+Opaque ustep_len ucollect ustep_value uvis wraps be_dec marker_state marker_btype.
+
+Ltac crunchX :=
+  repeat first
+  [ progress PS.norm
+  | match goal with
+    | |- context[uvis ?s ?e] => rewrite (uvis_eq s e)
+    | |- context[ustep_value ?p ?s (?x :: ?r)] =>
+        let E := fresh "E" in let Ho := fresh "Ho" in let Hu := fresh "Hu" in
+        let st := fresh "st" in let Hst := fresh "Hst" in let err := fresh "err" in let sc := fresh "sc" in
+        destruct (ustep_value_specX p s x r) as (? & ? & ? & ? & err & E & Ho); rewrite E; clear E;
+        destruct (unil err) eqn:Hu;
+        [ specialize (Ho eq_refl); destruct Ho as [(-> & -> & -> & ?Hx)|[(-> & -> & sc & ->)|(st & Hst & -> & -> & ->)]]
+        | clear Ho ]
+    | |- context[ustep_len ?p ?b ?c] =>
+        let E := fresh "E" in let Ho := fresh "Ho" in let Hu := fresh "Hu" in let err := fresh "err" in
+        let HL := fresh "HL" in
+        destruct (PS.ustep_len_weak p b c) as (? & ? & err & E & Ho); [PS.nonempty|]; rewrite E; clear E;
+        destruct (unil err) eqn:Hu;
+        [ specialize (Ho eq_refl); destruct Ho as [(? & ? & ->)|(? & ? & HL & ->)] | clear Ho ]
+    | |- context[ucollect ?p ?b ?c] =>
+        let E := fresh "E" in let Ho := fresh "Ho" in
+        destruct (PS.ucollect_weak p b c) as (? & ? & ? & E & Ho); [lia|]; rewrite E; clear E
+    | |- context[match marker_state ?m with _ => _ end] => destruct (marker_state m) eqn:?
+    | |- context[match ?o with Some _ => _ | None => _ end] => is_var o; destruct o
+    | |- context[if ?c then _ else _] => destruct c eqn:?
+    end ].
+
+
+Lemma mtakes_MA : forall r, mtakes (MA :: r) = true. Proof. reflexivity. Qed.
+Lemma mtakes_MV : forall r, mtakes (MV :: r) = true. Proof. reflexivity. Qed.
+Lemma mtakes_nil : mtakes [] = true. Proof. reflexivity. Qed.
+
+Lemma ulpop_eqv : forall p, exists lc' ls',
+  ul_pop p = {| up_cur := up_cur p; up_stack := up_stack p; up_vcur := up_vcur p; up_vstack := up_vstack p;
+                up_lcur := lc'; up_lstack := ls'; up_buf := up_buf p; up_marker := up_marker p;
+                up_vtype := up_vtype p; up_err := up_err p |}.
+Proof. intros p. unfold ul_pop. destruct (up_lstack p); eexists _, _; reflexivity. Qed.
+Lemma vpop_eqv : forall p, exists vc' vs',
+  v_pop p = {| up_cur := up_cur p; up_stack := up_stack p; up_vcur := vc'; up_vstack := vs';
+               up_lcur := up_lcur p; up_lstack := up_lstack p; up_buf := up_buf p; up_marker := up_marker p;
+               up_vtype := up_vtype p; up_err := up_err p |}.
+Proof. intros p. unfold v_pop. destruct (up_vstack p); eexists _, _; reflexivity. Qed.
+
+Ltac pops_away :=
+  repeat match goal with
+  | |- context[v_pop ?P] =>
+      let E := fresh "E" in destruct (vpop_eqv P) as (? & ? & E); rewrite E in *; clear E;
+      cbn [up_cur up_stack up_vcur up_vstack up_lcur up_lstack up_buf up_marker up_vtype up_err] in *
+  | |- context[ul_pop ?P] =>
+      lazymatch P with context[v_pop _] => fail | _ => idtac end;
+      let E := fresh "E" in destruct (ulpop_eqv P) as (? & ? & E); rewrite E in *; clear E;
+      cbn [up_cur up_stack up_vcur up_vstack up_lcur up_lstack up_buf up_marker up_vtype up_err] in *
+  end;
+  unfold u_pop in *; cbn [up_cur up_stack up_vcur up_vstack up_lcur up_lstack up_buf up_marker up_vtype up_err] in *.
+
+Ltac mc_eval :=
+  repeat match goal with
+  | |- context[mcur {| u_t := ?a; u_s := ?b |}] =>
+      let v := eval vm_compute in (mcur {| u_t := a; u_s := b |}) in
+      change (mcur {| u_t := a; u_s := b |}) with v
+  | |- context[mstk1 {| u_t := ?a; u_s := ?b |}] =>
+      let v := eval vm_compute in (mstk1 {| u_t := a; u_s := b |}) in
+      change (mstk1 {| u_t := a; u_s := b |}) with v
+  | |- context[mstk ({| u_t := ?a; u_s := ?b |} :: ?r)] => rewrite (mstk_cons {| u_t := a; u_s := b |} r)
+  end.
+
+Ltac sym_facts :=
+  repeat match goal with
+  | Hst : PS.st_in ?c PS.fresh_states = true |- context[u_t ?c =? 1] => rewrite (proj2 (fresh_factsX c Hst))
+  | Hst : PS.st_in ?c PS.fresh_states = true |- context[mcur ?c] => rewrite (proj1 (fresh_factsX c Hst))
+  | Hst : PS.st_in ?c PS.vstates = true |- context[u_t ?c =? 1] => rewrite (proj2 (vstate_factsX c Hst))
+  | Hst : PS.st_in ?c PS.vstates = true |- context[mcur ?c] => rewrite (proj1 (vstate_factsX c Hst))
+  end.
+
+Ltac mrun_eval :=
+  repeat first [ progress cbn [mrun mstep marrive app]
+               | rewrite mtakes_mstk | rewrite mtakes_MA | rewrite mtakes_MV | rewrite mtakes_nil
+               | rewrite mstk_nil ].
+
+Ltac witnessX :=
+  match goal with
+  | |- exists l, ?s = s_add ?s l /\ _ => exists (@nil event); split; [symmetry; apply s_add_nil|]
+  | |- exists l, s_add ?s ?l1 = s_add ?s l /\ _ => exists l1; split; [reflexivity|]
+  | |- exists l, s_add (s_add ?s ?l1) ?l2 = s_add ?s l /\ _ => exists (l1 ++ l2); split; [apply s_add_add|]
+  end.
+
+Ltac wfX HW :=
+  unfold WF; cbn [up_cur up_stack]; rewrite ?wfs_cons2, ?wfs_one; sym_facts;
+  cbn [u_t negb andb Z.eqb Pos.eqb];
+  first [ exact HW | reflexivity ].
+
+Ltac dX :=
+  first [ discriminate
+        | intros _; first [ reflexivity | apply PS.zlen_nil_iff; assumption ] ].
+
+(* the popped state c2 becomes current: go through the seven states that can be on the stack *)
+Ltac enum_c2 c2 H2 :=
+  let Hc := fresh "Hc" in let H2' := fresh "H2'" in
+  cbn [forallb] in H2; apply andb_true_iff in H2; destruct H2 as [Hc H2'];
+  apply PS.st_in_In in Hc; destruct c2 as [?t2 ?s2]; cbn [u_t u_s PS.stack_states In] in Hc;
+  repeat (destruct Hc as [Hc|Hc]; [injection Hc as <- <-|]); [..|contradiction].
+
+Ltac mrunX :=
+  unfold mst; cbn [up_cur up_stack]; sym_facts; mc_eval; mrun_eval; reflexivity.
+
+Ltac pop_prep HW H2 :=
+  match goal with
+  | |- context[WF ?P] =>
+      let c := eval cbn [up_cur] in (up_cur P) in
+      is_var c;
+      match type of H2 with context[c] => idtac end;
+      enum_c2 c H2;
+      rewrite (mstk_cons _ _);
+      match goal with
+      | Hz : (zlen ?stk =? 0) = true |- _ =>
+          apply PS.zlen_nil_iff in Hz; subst stk; rewrite wfs_one in HW; cbn [u_t Z.eqb Pos.eqb] in HW;
+          try discriminate HW
+      | Hz : (zlen ?stk =? 0) = false |- _ =>
+          destruct stk; [discriminate Hz|]; rewrite wfs_cons2 in HW; cbn [u_t Z.eqb Pos.eqb negb andb] in HW;
+          try discriminate HW
+      end
+  end.
+
+Ltac leafX HW H2 :=
+  pops_away; try pop_prep HW H2;
+  (witnessX; (split; [wfX HW|(split; [cbn [length]; lia|(split; [dX|mrunX])])])).
+
+Lemma ubody0_X : forall rec p s b, PS.inv1b p = true -> WF p -> PS.ready p b ->
+  (u_t (up_cur p) = tArrayTyped ->
+   forall p' s', PS.inv1b p' = true -> WF p' -> u_t (up_cur p') <> tArrayTyped -> PS.ready p' b ->
+     postX (length (up_stack p')) (mst p') s' (rec p' s' b)) ->
+  postX (length (up_stack p)) (mst p) s (PS.ubody0 rec p s b).
+Proof.
+  intros rec p s b Hi HW Hr Hrec.
+  destruct (PS.inv1b_split _ Hi) as (H1 & H2 & H3 & H4 & H5).
+  destruct p as [[t st] stk vc vs lc ls buf mk vt er].
+  unfold WF in HW. unfold mst.
+  cbn [up_cur up_stack up_vcur up_vstack up_lcur up_lstack] in H1, H2, H3, H4, H5, HW |- *.
+  destruct (PS.vstate_cur _ H4) as (V1 & V2 & V3).
+  apply PS.st_in_In in H1. cbn in H1.
+  repeat (destruct H1 as [H1|H1]; [injection H1 as <- <-|]); try contradiction.
+  all: cbn in H3.
+  all: destruct stk as [|c2 stk]; [rewrite wfs_one in HW|rewrite wfs_cons2 in HW];
+       cbn [u_t negb andb Z.eqb Pos.eqb] in HW; try discriminate HW.
+  all: destruct b as [|x r]; [ destruct Hr as [Hr|Hr]; [congruence|]; try (discriminate Hr); cbn in Hr |].
+  all: unfold PS.ubody0.
+  all: cbn -[Z.sub].
+  all: crunchX.
+  all: try contradiction.
+  all: try (intro Hu'; try congruence; try (rewrite Hu' in *; discriminate)).
+  all: PS.norm.
+  all: try exact I.
+  all: try (match goal with Hx : ?x = mN, Hn : (?x =? mN) = false |- _ => rewrite Hx in Hn; discriminate Hn end).
+  all: try solve [leafX HW H2].
+  all: match goal with
+    | |- postX ?n ?m ?s (value_nodone (?f ?P (s_add ?s ?l0) ?b)) =>
+        apply (postX_pre n (length (up_stack P)) m (mst P) s l0)
+    | |- postX ?n ?m ?s (value_nodone (?f ?P ?s ?b)) =>
+        apply (postX_pre0 n (length (up_stack P)) m (mst P) s)
+    end;
+    [ unfold mst; cbn [up_cur up_stack]; sym_facts; mc_eval; mrun_eval; reflexivity
+    | cbn [up_stack length]; lia
+    | cbn [up_stack length]; lia
+    | apply Hrec;
+      [ reflexivity
+      | apply PS.inv1b_join; cbn [up_cur up_stack up_vcur up_vstack up_lcur forallb] in *; rewrite ?V2, ?H2; auto
+      | wfX HW
+      | exact V3
+      | first [ left; discriminate
+              | right; apply PS.zero_sized_can_step; cbn [up_cur];
+                repeat match goal with H : (_ =? 0) = false |- _ => rewrite H in Hr end; exact Hr ] ] ].
+Qed.
+
+Transparent ustep_len ucollect ustep_value uvis wraps be_dec marker_state marker_btype.
+
+Lemma ubody_X : forall rec p s b, PS.inv1b p = true -> WF p -> PS.ready p b ->
+  (u_t (up_cur p) = tArrayTyped ->
+   forall p' s', PS.inv1b p' = true -> WF p' -> u_t (up_cur p') <> tArrayTyped -> PS.ready p' b ->
+     postX (length (up_stack p')) (mst p') s' (rec p' s' b)) ->
+  postX (length (up_stack p)) (mst p) s (PS.ubody rec p s b).
+Proof. intros. unfold PS.ubody. apply postX_latch. apply ubody0_X; assumption. Qed.
+
+Lemma uexec_step_X : forall p s b, PS.inv1b p = true -> WF p -> PS.ready p b ->
+  postX (length (up_stack p)) (mst p) s (uexec_step p s b).
+Proof.
+  intros p s b Hi HW Hr. unfold uexec_step. rewrite PS.uexec_S. apply ubody_X; try assumption.
+  intros _ p' s' Hi' HW' Ht' Hr'. rewrite PS.uexec_S. apply ubody_X; try assumption.
+  intro X; contradiction.
+Qed.
+
+(* The emission / done-flag lemma for one execStep (the analogue of jstep_emit): the events
+   delivered by a step drive the monitor from the state of the parser before the step to the
+   state of the parser after it, and done is returned exactly when the monitor has finished,
+   i.e. when the events complete the top-level value. *)
+Lemma step_mon : forall p s b p1 s1 rest d,
+  PS.inv1b p = true -> WF p -> PS.ready p b -> uexec_step p s b = UR p1 s1 rest d unilE ->
+  exists l, s1 = s_add s l /\ WF p1 /\ PS.inv1b p1 = true /\ (d = true -> up_stack p1 = []) /\
+            mrun (Run (mst p)) l = Some (if d then Fin else Run (mst p1)).
+Proof.
+  intros p s b p1 s1 rest d Hi HW Hr H.
+  pose proof (uexec_step_X p s b Hi HW Hr) as X. pose proof (PS.uexec_step_safe1 p s b Hi Hr) as P.
+  rewrite H in X, P. cbn [postX PS.post1] in X, P.
+  destruct (X eq_refl) as (l & A & B & _ & C & D). exists l. auto.
+Qed.
+
+Lemma fu_mon : forall n p s b p1 s1 rest d,
+  PS.inv1b p = true -> WF p -> PS.ready p b -> ufeed_until n p s b = Ok (UR p1 s1 rest d unilE) ->
+  exists l, s1 = s_add s l /\ WF p1 /\ PS.inv1b p1 = true /\ (d = true -> up_stack p1 = []) /\
+            mrun (Run (mst p)) l = Some (if d then Fin else Run (mst p1)).
+Proof.
+  induction n as [|n IH]; intros p s b p1 s1 rest d Hi HW Hr H; [discriminate|].
+  cbn [ufeed_until] in H.
+  destruct (uexec_step p s b) as [pa sa ra da ea|w] eqn:E; [|discriminate].
+  destruct (da || negb (unil ea)) eqn:E1.
+  - inversion H; subst. eapply step_mon; eauto.
+  - apply orb_false_iff in E1. destruct E1 as [-> En]. apply negb_false_iff, unil_true in En. subst ea.
+    destruct (step_mon _ _ _ _ _ _ _ Hi HW Hr E) as (l0 & -> & HW1 & Hi1 & _ & M0).
+    destruct ((zlen ra =? 0) && negb (can_step_without_input pa)) eqn:Ec.
+    + inversion H; subst. exists l0. repeat split; auto. discriminate.
+    + assert (Hr1 : PS.ready pa ra).
+      { apply andb_false_iff in Ec. destruct Ec as [Ec|Ec].
+        - left. intros ->. discriminate Ec.
+        - right. apply negb_false_iff in Ec. exact Ec. }
+      destruct (IH _ _ _ _ _ _ _ Hi1 HW1 Hr1 H) as (l & -> & A & B & C & D).
+      exists (l0 ++ l). rewrite s_add_add. repeat split; auto.
+      rewrite (mrun_app _ _ _ _ M0). exact D.
+Qed.
+
+(* ---------- one Next ---------- *)
+Lemma next_mon : forall fuel d s d' s',
+  PS.inv1b (ud_p d) = true -> WF (ud_p d) -> uscript_okb (ud_script d) = true ->
+  udec_next fuel d s = Ok (d', s', unilE) ->
+  exists l, s' = s_add s l /\ WF (ud_p d') /\ PS.inv1b (ud_p d') = true /\ up_stack (ud_p d') = [] /\
+            uscript_okb (ud_script d') = true /\
+            mrun (Run (mst (ud_p d))) l = Some Fin.
+Proof.
+  induction fuel as [|f IH]; intros d s d' s' Hi HW Hsc H; [discriminate|].
+  rewrite udec_next_S in H. pose proof (udec_fill_spec d Hsc) as Hf.
+  destruct (udec_fill d) as [d1|sc|d1 e]; [| |contradiction].
+  - destruct Hf as (Hp & _ & Ho & _). rewrite <- Hp in Hi, HW |- *.
+    destruct (zlen (ud_buf d1) =? 0) eqn:Eb; [eapply IH; eauto|].
+    assert (Hr : PS.ready (ud_p d1) (ud_buf d1)) by (left; intros E; rewrite E in Eb; discriminate Eb).
+    unfold udec_body in H.
+    destruct (ufeed_until _ _ _ _) as [[p1 s1 rest dn err|w]|a|a|] eqn:Hfu; try discriminate.
+    destruct (unil err) eqn:Ee; cbn [negb] in H; [|inversion H; subst; discriminate Ee].
+    apply unil_true in Ee. subst err.
+    destruct (fu_mon _ _ _ _ _ _ _ _ Hi HW Hr Hfu) as (l0 & -> & HW1 & Hi1 & Hd & M0).
+    destruct dn.
+    + inversion H; subst d' s'. cbn [ud_p ud_script]. exists l0. repeat split; auto.
+    + match type of H with udec_next f ?d2 _ = _ =>
+        destruct (IH d2 _ _ _ Hi1 HW1 Ho H) as (l & -> & A & B & C & D & E) end.
+      cbn [ud_p] in E. exists (l0 ++ l). rewrite s_add_add. repeat split; auto.
+      rewrite (mrun_app _ _ _ _ M0). exact E.
+  - unfold udec_fin in H. destruct (ufin (ud_p d) s) as [[p1 s1] e0]. inversion H as [[Hd' Hs' He]].
+    destruct (unil e0) eqn:E0; [discriminate He|]. subst e0. discriminate E0.
+Qed.
+
+(* the decoder between two values *)
+Definition dtop (d : udecoder) : Prop :=
+  PS.inv1b (ud_p d) = true /\ up_cur (ud_p d) = mku tNext sStart /\ up_stack (ud_p d) = [] /\
+  uscript_okb (ud_script d) = true.
+
+Lemma top_state : forall p, PS.inv1b p = true -> WF p -> up_stack p = [] -> up_cur p = mku tNext sStart.
+Proof.
+  intros p Hi HW Hs. unfold WF in HW. rewrite Hs, wfs_one in HW.
+  destruct (PS.inv1b_split _ Hi) as (H1 & _). destruct (up_cur p) as [t st]. cbn [u_t] in HW.
+  apply Z.eqb_eq in HW. subst t. apply PS.st_in_In in H1. cbn in H1.
+  repeat (destruct H1 as [H1|H1]; [injection H1; intros; subst; first [reflexivity|congruence]|]). contradiction.
+Qed.
+
+(* C18: a Next that returns nil has delivered the events of EXACTLY ONE value - a complete tree,
+   at least one event, and nothing of the value that follows - and the decoder is between two
+   values again. *)
+Theorem C18_ubj_next_tree : forall fuel d s d' s',
+  dtop d -> udec_next fuel d s = Ok (d', s', unilE) ->
+  exists t, s' = s_add s (flatten t) /\ dtop d'.
+Proof.
+  intros fuel d s d' s' (Hi & Hc & Hs & Hsc) H.
+  assert (HW : WF (ud_p d)) by (unfold WF; rewrite Hc, Hs; reflexivity).
+  destruct (next_mon _ _ _ _ _ Hi HW Hsc H) as (l & -> & A & B & C & D & E).
+  assert (Hm : mst (ud_p d) = []) by (unfold mst; rewrite Hc, Hs; reflexivity).
+  rewrite Hm in E. destruct (mrun_tree l E) as (t & ->).
+  exists t. split; [reflexivity|]. split; [exact B|]. split; [apply top_state; assumption|]. auto.
+Qed.
+
+Lemma flatten_nonempty : forall t, flatten t <> [].
+Proof. intros [sc [|]|len bt es|len bt ms|bt es|bt ms]; try destruct sc; discriminate. Qed.
+
+(* ====================================================================== *)
+(* Part 6: a step that reports done does not depend on what follows        *)
+(* ====================================================================== *)
+(* ChunkProofs.Dich leaves two alternatives for the step on a ++ b; for a step that
+   completes the top-level value only the first one (the step does the same and
+   leaves b unread) is possible. *)
+Definition DoneExt (b : bytes) (r w : ures) : Prop :=
+  match r with
+  | UR _ _ _ true e => e = unilE -> ext b r w
+  | _ => True
+  end.
+
+Lemma DE_ext : forall b r w, ext b r w -> DoneExt b r w.
+Proof. intros b [p s rest [|] e|c] w H; cbn [DoneExt]; auto. Qed.
+Lemma DE_of_ul : forall b r s w, DoneExt b (of_ul r s) w.
+Proof. intros b [p rest e|c] s w; exact I. Qed.
+Lemma DE_nodone : forall b r w, DoneExt b (value_nodone r) w.
+Proof. intros b [p s rest d e|c] w; exact I. Qed.
+Lemma DE_latch : forall b r w, DoneExt b r w -> DoneExt b (xlatch r) (xlatch w).
+Proof.
+  intros b [p s rest [|] e|c] w H; cbn [DoneExt xlatch] in *; try exact I.
+  - destruct (unil e) eqn:E; cbn [DoneExt]; intros He.
+    + specialize (H He). subst e. apply (ext_latch b (UR p s rest true unilE) w H).
+    + subst e. discriminate E.
+  - destruct (unil e); exact I.
+Qed.
+
+Lemma fixed_via_done : forall b p s a k mk, bufok p k ->
+  DoneExt b (fixed_via p s a k mk) (fixed_via p s (a ++ b) k mk).
+Proof.
+  intros b p s a k mk Hb. unfold fixed_via at 1.
+  destruct (ucollect p a k) as [p1 rest [t|]|] eqn:E; [..|exact I].
+  - apply DE_ext. destruct (collect_some_app p a b _ _ _ _ Hb E) as [E2 _].
+    unfold fixed_via. rewrite E2. destruct (uvis s _) as [s1 e]. apply fixed_fin_ext.
+  - unfold fixed_fin. cbn [andb]. exact I.
+Qed.
+
+Lemma ustep_fixed_done : forall b p s a,
+  a <> [] \/ is_zero_sized (up_cur p) = true -> bufok p (fixed_count (u_s (up_cur p))) ->
+  DoneExt b (ustep_fixed p s a) (ustep_fixed p s (a ++ b)).
+Proof.
+  intros b p s a Ha Hb. rewrite !ustep_fixed_eq.
+  assert (Hvia : forall k mk, fixed_count (u_s (up_cur p)) = k ->
+            DoneExt b (fixed_via p s a k mk) (fixed_via p s (a ++ b) k mk)).
+  { intros k mk Hk. apply fixed_via_done. rewrite <- Hk. exact Hb. }
+  unfold fixed_body at 1 2.
+  destruct (u_s (up_cur p) =? sNil) eqn:E1.
+  { destruct (uvis s _) as [s1 e]. apply DE_ext, fixed_fin_ext. }
+  destruct (u_s (up_cur p) =? sNoop) eqn:E2.
+  { apply DE_ext, fixed_fin_ext. }
+  destruct (u_s (up_cur p) =? sTrue) eqn:E3.
+  { destruct (uvis s _) as [s1 e]. apply DE_ext, fixed_fin_ext. }
+  destruct (u_s (up_cur p) =? sFalse) eqn:E4.
+  { destruct (uvis s _) as [s1 e]. apply DE_ext, fixed_fin_ext. }
+  assert (Ha' : a <> []).
+  { destruct Ha as [Ha|Ha]; [exact Ha|]. unfold is_zero_sized in Ha. rewrite E1, E3, E4 in Ha.
+    rewrite andb_false_r in Ha. discriminate Ha. }
+  destruct (u_s (up_cur p) =? sInt8) eqn:E5.
+  { destruct a as [|x r]; [congruence|]. cbn [app].
+    destruct (uvis s _) as [s1 e]. apply DE_ext, fixed_fin_ext. }
+  destruct (u_s (up_cur p) =? sUInt8) eqn:E6.
+  { destruct a as [|x r]; [congruence|]. cbn [app].
+    destruct (uvis s _) as [s1 e]. apply DE_ext, fixed_fin_ext. }
+  destruct (u_s (up_cur p) =? sChar) eqn:E7.
+  { apply Hvia. unfold fixed_count. rewrite E7. reflexivity. }
+  destruct (u_s (up_cur p) =? sInt16) eqn:E8.
+  { apply Hvia. unfold fixed_count. rewrite E7, E8. reflexivity. }
+  destruct (u_s (up_cur p) =? sInt32) eqn:E9.
+  { apply Hvia. unfold fixed_count. rewrite E7, E8, E9. reflexivity. }
+  destruct (u_s (up_cur p) =? sInt64) eqn:E10.
+  { apply Hvia. unfold fixed_count. rewrite E7, E8, E9, E10. reflexivity. }
+  destruct (u_s (up_cur p) =? sFloat32) eqn:E11.
+  { apply Hvia. unfold fixed_count. rewrite E7, E8, E9, E10, E11. reflexivity. }
+  destruct (u_s (up_cur p) =? sFloat64) eqn:E12.
+  { apply Hvia. unfold fixed_count. rewrite E7, E8, E9, E10, E11, E12. reflexivity. }
+  exact I.
+Qed.
+
+Lemma str_withlen_done : forall b p s a, bufok p (up_lcur p) ->
+  DoneExt b (str_withlen p s a) (str_withlen p s (a ++ b)).
+Proof.
+  intros b p s a Hb. unfold str_withlen at 1.
+  destruct (up_lcur p =? 0) eqn:EL.
+  { apply DE_ext. unfold str_withlen. rewrite EL. destruct (uvis s _) as [s1 e]. apply str_fin_ext. }
+  destruct (ucollect p a (up_lcur p)) as [p1 rest [t|]|] eqn:E; [..|exact I].
+  - apply DE_ext. destruct (collect_some_app p a b _ _ _ _ Hb E) as [E2 _].
+    unfold str_withlen. rewrite EL, E2. destruct (uvis s _) as [s1 e]. apply str_fin_ext.
+  - unfold str_fin. cbn [andb]. exact I.
+Qed.
+
+Lemma ustep_string_done : forall b p s a,
+  isstr p -> good p -> a <> [] -> b <> [] ->
+  DoneExt b (ustep_string p s a) (ustep_string p s (a ++ b)).
+Proof.
+  intros b p s a Ht Hg Ha Hb0. rewrite !ustep_string_eq.
+  destruct (u_s (up_cur p) =? sStart) eqn:E1.
+  - apply Z.eqb_eq in E1.
+    pose proof (good_len p Hg (lenst_str_start p Ht E1)) as Hbuf.
+    set (cont := with_step (up_cur p) sWithLen).
+    pose proof (ustep_len_dich cont p a b Hbuf Ha Hb0) as D.
+    destruct (ustep_len p a cont) as [p1 rest e|c] eqn:EL; [|exact I].
+    cbn [LDich] in D. destruct D as [D|(D1 & D2 & D3 & D4 & D5 & D6)].
+    + destruct (ustep_len p (a ++ b) cont) as [p2 rest' e'|c'] eqn:EW; cbn [extL] in D; [|contradiction].
+      destruct D as [<- D]. cbn [str_cont].
+      destruct (unil e) eqn:Ee.
+      * apply unil_true in Ee. destruct (D Ee) as [<- ->]. subst e.
+        destruct (u_s (up_cur p1) =? sWithLen) eqn:Es; cbn [andb]; [|exact I].
+        apply Z.eqb_eq in Es.
+        destruct (ustep_len_res cont p a p1 rest Hbuf EL) as (_ & _ & _ & _ & [(A & _)|(A & B)]).
+        { rewrite A, E1 in Es. discriminate. }
+        apply str_withlen_done. left. apply B.
+      * cbn [andb]. exact I.
+    + subst rest e. cbn [str_cont]. rewrite D4, E1.
+      replace (sStart =? sWithLen) with false by reflexivity. rewrite andb_false_r. exact I.
+  - destruct (u_s (up_cur p) =? sWithLen) eqn:E2.
+    + apply Z.eqb_eq in E2. apply str_withlen_done.
+      destruct (good_nolen p Hg) as [_ Hbuf]; [apply lenst_str_other; [exact Ht|lia]|].
+      rewrite count_of_str_withlen in Hbuf by assumption. exact Hbuf.
+    + exact I.
+Qed.
+
+Lemma arr_counted_done : forall b p s a,
+  u_t (up_cur p) = tArrayCount -> a <> [] \/ cstep p = true ->
+  DoneExt b (arr_counted p s a) (arr_counted p s (a ++ b)).
+Proof.
+  intros b p s a Ht Ha. rewrite !arr_counted_eq.
+  destruct (u_s (up_cur p) =? sStart) eqn:E1; [apply DE_of_ul|].
+  apply DE_ext.
+  assert (Ha' : a <> [] \/ up_lcur p = 0).
+  { destruct Ha as [Ha|Ha]; [left; exact Ha|right]. apply cstep_arrcount in Ha; tauto. }
+  destruct (u_s (up_cur p) =? sWithLen).
+  + destruct (uvis s _) as [s1 e]. apply cnt_body_ext. exact Ha'.
+  + apply cnt_body_ext. exact Ha'.
+Qed.
+
+Lemma typ_body_done : forall rec b p1 s1 e0 l a,
+  DoneExt b (typ_body rec p1 s1 e0 l a) (typ_body rec p1 s1 e0 l (a ++ b)).
+Proof.
+  intros rec b p1 s1 e0 l a. unfold typ_body.
+  destruct (negb (unil e0)) eqn:E0; [exact I|].
+  destruct (l =? 0) eqn:El.
+  { apply DE_ext. repeat (first [ ext_solve | bm ]). }
+  cbv zeta. apply DE_nodone.
+Qed.
+
+Lemma arr_typed_done : forall rec b p s a,
+  DoneExt b (arr_typed rec p s a) (arr_typed rec p s (a ++ b)).
+Proof.
+  intros rec b p s a. rewrite !arr_typed_eq.
+  destruct ((u_s (up_cur p) =? sStart) || (u_s (up_cur p) =? sWithType0) || (u_s (up_cur p) =? sWithType1));
+    [apply DE_of_ul|].
+  destruct (u_s (up_cur p) =? sWithLen).
+  + destruct (uvis s _) as [s1 e]. apply typ_body_done.
+  + apply typ_body_done.
+Qed.
+
+Lemma obj_dyn_done : forall b p s a, a <> [] ->
+  DoneExt b (obj_dyn p s a) (obj_dyn p s (a ++ b)).
+Proof.
+  intros b p s a Ha. destruct a as [|x r]; [congruence|].
+  unfold obj_dyn at 1 2. cbn [app].
+  destruct ((u_s (up_cur p) =? sStart) && (up_marker p =? 0) && (x =? mObjE)) eqn:C1.
+  { apply DE_ext. repeat (first [ ext_solve | bm ]). }
+  destruct (u_s (up_cur p) =? sStart) eqn:C2; [apply DE_of_ul|].
+  destruct (u_s (up_cur p) =? sFieldNameLen) eqn:C3.
+  { destruct (ucollect p (x :: r) (up_lcur p)) as [p1 rest [t|]|]; try exact I.
+    destruct (uvis s _) as [s1 e]. exact I. }
+  destruct (u_s (up_cur p) =? sCont) eqn:C4.
+  { destruct (x =? mN); [exact I|apply DE_nodone]. }
+  exact I.
+Qed.
+
+Lemma wrap_close_false : forall typed p s rest e, obj_wrap typed (oc_close false p s rest e) = UR p s rest false e.
+Proof. reflexivity. Qed.
+
+Lemma wrap_len_false : forall typed b s r w, DoneExt b (obj_wrap typed (oc_len s r)) w.
+Proof. intros typed b s [p1 rest e|c] w; exact I. Qed.
+
+Lemma oc_field_name_done : forall typed b p s a,
+  DoneExt b (obj_wrap typed (oc_field_name p s a)) (obj_wrap typed (oc_field_name p s (a ++ b))).
+Proof.
+  intros typed b p s a. unfold oc_field_name.
+  destruct (up_lcur p =? 0); [apply DE_ext, wrap_ext, oc_close_ext|apply wrap_len_false].
+Qed.
+
+Lemma content_done : forall typed b p s a,
+  DoneExt b (obj_wrap typed (ustep_obj_content p s a typed))
+            (obj_wrap typed (ustep_obj_content p s (a ++ b) typed)).
+Proof.
+  intros typed b p s a. rewrite !obj_content_eq. cbv zeta.
+  destruct (u_s (up_cur p) =? sWithLen) eqn:C1.
+  { unfold oc_withlen. destruct (uvis s _) as [s1 e].
+    destruct (negb (unil e)) eqn:Ee; [exact I|].
+    destruct (up_lcur p =? 0) eqn:El; [apply DE_ext, wrap_ext, oc_close_ext|].
+    apply oc_field_name_done. }
+  destruct (u_s (up_cur p) =? sFieldName) eqn:C2; [apply oc_field_name_done|].
+  destruct (u_s (up_cur p) =? sFieldNameLen) eqn:C3.
+  { unfold oc_key at 1.
+    destruct (if up_lcur p =? 0 then UC p a (Some []) else ucollect p a (up_lcur p)) as [p1 rest [t|]|]; try exact I.
+    cbv zeta. destruct (uvis s _) as [s1 e]. exact I. }
+  destruct (u_s (up_cur p) =? sCont) eqn:C4.
+  { unfold oc_cont at 1. destruct a as [|x r].
+    - destruct typed; exact I.
+    - destruct (negb typed && (x =? mN)); [exact I|]. cbv zeta.
+      destruct typed; [exact I|].
+      destruct (ustep_value _ s (x :: r)) as [p2 s2 rest d err|c]; exact I. }
+  exact I.
+Qed.
+
+Lemma obj_counted_done : forall b p s a,
+  DoneExt b (obj_counted p s a) (obj_counted p s (a ++ b)).
+Proof.
+  intros b p s a. rewrite !obj_counted_eq.
+  destruct (u_s (up_cur p) =? sStart); [apply DE_of_ul|apply content_done].
+Qed.
+Lemma obj_typed_done : forall b p s a,
+  DoneExt b (obj_typed p s a) (obj_typed p s (a ++ b)).
+Proof.
+  intros b p s a. rewrite !obj_typed_eq.
+  destruct ((u_s (up_cur p) =? sStart) || (u_s (up_cur p) =? sWithType0) || (u_s (up_cur p) =? sWithType1));
+    [apply DE_of_ul|apply content_done].
+Qed.
+
+Lemma DoneAt_all : forall f p s a b,
+  Inv p -> a <> [] \/ cstep p = true -> b <> [] ->
+  DoneExt b (uexec f p s a) (uexec f p s (a ++ b)).
+Proof.
+  intros [|f] p s a b HI Ha Hb0; [exact I|].
+  rewrite !uexec_S. apply DE_latch.
+  destruct HI as [He [Hd|Hg]].
+  { rewrite !xb_fail by exact Hd. exact I. }
+  destruct (t_cases (u_t (up_cur p))) as [T|[T|[T|[T|[T|[T|[T|[T|[T|[T|[T|[T|[T|T]]]]]]]]]]]]].
+  - exfalso. destruct Hg as ((Hs & _) & _). apply stk_notfail in Hs. congruence.
+  - rewrite !xb_next by exact T. apply DE_ext, ustep_value_ext.
+    apply (need_input p a Ha). apply cstep_false_t. auto.
+  - rewrite !xb_fixed by exact T. apply ustep_fixed_done.
+    + rewrite cstep_fixed in Ha by exact T. exact Ha.
+    + destruct (good_nolen p Hg (lenst_fixed p T)) as [_ Hb]. rewrite count_of_fixed in Hb by exact T. exact Hb.
+  - rewrite !xb_string by (left; exact T). apply ustep_string_done; auto; [left; exact T|].
+    apply (need_input p a Ha). apply cstep_str. left; exact T.
+  - rewrite !xb_string by (right; exact T). apply ustep_string_done; auto; [right; exact T|].
+    apply (need_input p a Ha). apply cstep_str. right; exact T.
+  - rewrite !xb_arr by exact T. apply DE_ext, arr_start_ext.
+    apply (need_input p a Ha). apply cstep_false_t. auto.
+  - rewrite !xb_arrdyn by exact T. apply DE_ext, arr_dyn_ext.
+    apply (need_input p a Ha). apply cstep_false_t. auto.
+  - rewrite !xb_arrcount by exact T. apply arr_counted_done; auto.
+  - rewrite !xb_arrtyped by exact T. apply arr_typed_done.
+  - rewrite !xb_obj by exact T. apply DE_ext, obj_start_ext.
+    apply (need_input p a Ha). apply cstep_false_t. auto.
+  - rewrite !xb_objdyn by exact T.
+    destruct ((u_s (up_cur p) =? sFieldNameLen) && (up_lcur p =? 0)) eqn:K.
+    + apply DE_ext, obj_dyn_emptykey_ext.
+    + apply obj_dyn_done.
+      apply (need_input p a Ha). rewrite cstep_objdyn by exact T. exact K.
+  - rewrite !xb_objcount by exact T. apply obj_counted_done.
+  - rewrite !xb_objtyped by exact T. apply obj_typed_done.
+  - rewrite !xb_other by exact T. exact I.
+Qed.
+
+(* a done step is the same step on any longer input, up to the done flag of the longer one
+   (which the monitor determines, see done_ext below) *)
+Lemma exec_done_ext : forall p s a b p1 s1 rest,
+  Inv p -> a <> [] \/ cstep p = true -> b <> [] ->
+  uexec_step p s a = UR p1 s1 rest true unilE ->
+  exists d', uexec_step p s (a ++ b) = UR p1 s1 (rest ++ b) d' unilE.
+Proof.
+  intros p s a b p1 s1 rest HI Ha Hb H.
+  pose proof (DoneAt_all 3 p s a b HI Ha Hb) as D. fold (uexec_step p s a) in D. fold (uexec_step p s (a ++ b)) in D.
+  rewrite H in D. cbn [DoneExt] in D. specialize (D eq_refl).
+  destruct (uexec_step p s (a ++ b)) as [p2 s2 rest2 d2 e2|w]; cbn [ext] in D; [|contradiction].
+  destruct D as (<- & <- & D). destruct (D eq_refl) as (<- & ->). exists d2. reflexivity.
+Qed.
+
+
+(* ====================================================================== *)
+(* Part 7: one Next as a function of the bytes that are still to come      *)
+(* ====================================================================== *)
+Definition pinv (p : uparser) : Prop := Inv p /\ PS.inv1b p = true /\ WF p.
+
+Lemma pinv0 : pinv uparser0.
+Proof. split; [exact Inv0|]. split; reflexivity. Qed.
+
+Lemma ready_of : forall p (a : bytes), a <> [] \/ cstep p = true -> PS.ready p a.
+Proof. intros p a H. exact H. Qed.
+
+Lemma pinv_step : forall p s b p1 s1 rest d,
+  pinv p -> PS.ready p b -> uexec_step p s b = UR p1 s1 rest d unilE -> pinv p1.
+Proof.
+  intros p s b p1 s1 rest d (HI & Hi & HW) Hr H.
+  destruct (step_mon _ _ _ _ _ _ _ Hi HW Hr H) as (l & _ & A & B & _).
+  split; [exact (proj1 (exec_post _ _ _ _ _ _ _ HI H))|]. auto.
+Qed.
+
+Lemma s_add_inj : forall s l l', s_add s l = s_add s l' -> l = l'.
+Proof.
+  intros s l l' H. unfold s_add in H. inversion H as [[H1 H2]].
+  apply app_inv_tail in H1. rewrite <- (rev_involutive l), <- (rev_involutive l'), H1. reflexivity.
+Qed.
+
+Lemma if_fin_inj : forall (d d' : bool) m, (if d then Fin else Run m) = (if d' then Fin else Run m) -> d = d'.
+Proof. intros [|] [|] m H; try reflexivity; discriminate H. Qed.
+
+(* the done flag is a function of the monitor state before the step and the events of the step *)
+Lemma done_same : forall p s a a' p1 s1 rest rest' d d',
+  pinv p -> PS.ready p a -> PS.ready p a' ->
+  uexec_step p s a = UR p1 s1 rest d unilE -> uexec_step p s a' = UR p1 s1 rest' d' unilE -> d = d'.
+Proof.
+  intros p s a a' p1 s1 rest rest' d d' (HI & Hi & HW) Hr Hr' H H'.
+  destruct (step_mon _ _ _ _ _ _ _ Hi HW Hr H) as (l & E & _ & _ & _ & M).
+  destruct (step_mon _ _ _ _ _ _ _ Hi HW Hr' H') as (l' & E' & _ & _ & _ & M').
+  rewrite E in E'. apply s_add_inj in E'. subst l'. rewrite M in M'. inversion M' as [K].
+  exact (if_fin_inj _ _ _ K).
+Qed.
+
+(* ... also when the step on the longer input is the step after a silent partial step *)
+Lemma done_same2 : forall p s a p1 s1 b x p2 s2 rest2 d2 restw dw,
+  pinv p -> PS.ready p a -> PS.ready p1 b -> PS.ready p x ->
+  uexec_step p s a = UR p1 s1 [] false unilE ->
+  uexec_step p1 s1 b = UR p2 s2 rest2 d2 unilE ->
+  uexec_step p s x = UR p2 s2 restw dw unilE -> d2 = dw.
+Proof.
+  intros p s a p1 s1 b x p2 s2 rest2 d2 restw dw Hp Hr Hr1 Hrx H0 H2 Hw.
+  pose proof (pinv_step _ _ _ _ _ _ _ Hp Hr H0) as Hp1.
+  destruct Hp as (HI & Hi & HW). destruct Hp1 as (HI1 & Hi1 & HW1).
+  destruct (step_mon _ _ _ _ _ _ _ Hi HW Hr H0) as (l0 & E0 & _ & _ & _ & M0).
+  destruct (step_mon _ _ _ _ _ _ _ Hi1 HW1 Hr1 H2) as (l2 & E2 & _ & _ & _ & M2).
+  destruct (step_mon _ _ _ _ _ _ _ Hi HW Hrx Hw) as (lw & Ew & _ & _ & _ & Mw).
+  subst s1. rewrite E2, s_add_add in Ew. apply s_add_inj in Ew. subst lw.
+  rewrite (mrun_app _ _ _ _ M0), M2 in Mw. inversion Mw as [K]. exact (if_fin_inj _ _ _ K).
+Qed.
+
+(* the loop of feedUntil, without fuel: it stops at done *)
+Definition rdres := (uparser * sink * bytes * bool * Z)%type.
+Inductive RD : uparser -> sink -> bytes -> rdres -> Prop :=
+| RD_err : forall p s b p1 s1 rest d e,
+    uexec_step p s b = UR p1 s1 rest d e -> e <> unilE -> RD p s b (p1, s1, rest, d, e)
+| RD_done : forall p s b p1 s1 rest,
+    uexec_step p s b = UR p1 s1 rest true unilE -> RD p s b (p1, s1, rest, true, unilE)
+| RD_more : forall p s b p1 s1 rest r,
+    uexec_step p s b = UR p1 s1 rest false unilE -> rest <> [] -> RD p1 s1 rest r -> RD p s b r
+| RD_stut : forall p s b p1 s1 r,
+    uexec_step p s b = UR p1 s1 [] false unilE -> cstep p1 = true -> RD p1 s1 [] r -> RD p s b r
+| RD_stop : forall p s b p1 s1,
+    uexec_step p s b = UR p1 s1 [] false unilE -> cstep p1 = false ->
+    RD p s b (p1, s1, [], false, unilE).
+
+Lemma RD_det : forall p s b r, RD p s b r -> forall r', RD p s b r' -> r = r'.
+Proof.
+  induction 1 as [p s b p1 s1 rest d e E Hn | p s b p1 s1 rest E | p s b p1 s1 rest r E Hr _ IH
+                 | p s b p1 s1 r E Hx _ IH | p s b p1 s1 E Hd];
+    intros r' H'; inversion H'; subst;
+    match goal with H : uexec_step _ _ _ = _ |- _ => rewrite E in H; inversion H; subst end;
+    try congruence; auto.
+Qed.
+
+Lemma feed_until_RD : forall n p s b p1 s1 rest d e,
+  ufeed_until n p s b = Ok (UR p1 s1 rest d e) -> RD p s b (p1, s1, rest, d, e).
+Proof.
+  induction n as [|n IH]; intros p s b p1 s1 rest d e H; [discriminate|].
+  cbn [ufeed_until] in H.
+  destruct (uexec_step p s b) as [pa sa ra da ea|w] eqn:E; [|discriminate].
+  destruct (da || negb (unil ea)) eqn:E1.
+  - inversion H; subst; clear H. destruct (unil e) eqn:Ee.
+    + apply unil_true in Ee. subst e. cbn [negb] in E1. rewrite orb_false_r in E1. subst d.
+      apply RD_done. exact E.
+    + apply unil_false in Ee. eapply RD_err; eauto.
+  - apply orb_false_iff in E1. destruct E1 as [-> En]. apply negb_false_iff, unil_true in En. subst ea.
+    destruct ((zlen ra =? 0) && negb (can_step_without_input pa)) eqn:Ec.
+    + inversion H; subst; clear H. apply andb_true_iff in Ec. destruct Ec as [Ec1 Ec2].
+      apply Z.eqb_eq, zlen_zero in Ec1. subst rest. apply negb_true_iff in Ec2.
+      apply RD_stop; assumption.
+    + specialize (IH _ _ _ _ _ _ _ _ H). destruct ra as [|x ra].
+      * eapply RD_stut; [exact E| |exact IH].
+        cbn in Ec. unfold cstep. destruct (can_step_without_input pa); [reflexivity|discriminate].
+      * eapply RD_more; [exact E|discriminate|exact IH].
+Qed.
+
+(* same visitor and verdict; after a nil verdict the same parser, rest and done flag *)
+Definition simD (r r' : rdres) : Prop :=
+  let '(p, s, rest, d, e) := r in let '(p', s', rest', d', e') := r' in
+  s = s' /\ e = e' /\ (e = unilE -> p = p' /\ rest = rest' /\ d = d').
+Lemma simD_refl : forall r, simD r r.
+Proof. intros [[[[p s] rest] d] e]. cbn. auto. Qed.
+
+(* the step from p1 on b is the step from p on x (second alternative of Dich) *)
+Lemma RD_ext_nil : forall p s a p1 s1 b x r,
+  pinv p -> PS.ready p a -> PS.ready p x -> b <> [] ->
+  uexec_step p s a = UR p1 s1 [] false unilE ->
+  ext [] (uexec_step p1 s1 b) (uexec_step p s x) -> RD p1 s1 b r ->
+  exists r', RD p s x r' /\ simD r r'.
+Proof.
+  intros p s a p1 s1 b x r Hp Hr Hrx Hb H0 X H.
+  assert (Hr1 : PS.ready p1 b) by (left; exact Hb).
+  inversion H; subst;
+    match goal with E : uexec_step p1 s1 b = _ |- _ => rewrite E in X; rename E into E0 end;
+    destruct (uexec_step p s x) as [pw sw restw dw ew|w] eqn:W; cbn [ext] in X;
+    try contradiction; destruct X as (<- & <- & X).
+  - eexists; split; [eapply RD_err; eauto|]. cbn. repeat split; auto; congruence.
+  - destruct (X eq_refl) as (<- & ->). rewrite app_nil_r in W.
+    pose proof (done_same2 _ _ _ _ _ _ _ _ _ _ _ _ _ Hp Hr Hr1 Hrx H0 E0 W) as <-.
+    eexists; split; [eapply RD_done; eauto|apply simD_refl].
+  - destruct (X eq_refl) as (<- & ->). rewrite app_nil_r in W.
+    pose proof (done_same2 _ _ _ _ _ _ _ _ _ _ _ _ _ Hp Hr Hr1 Hrx H0 E0 W) as <-.
+    eexists; split; [eapply RD_more; eauto|apply simD_refl].
+  - destruct (X eq_refl) as (<- & ->). cbn [app] in W.
+    pose proof (done_same2 _ _ _ _ _ _ _ _ _ _ _ _ _ Hp Hr Hr1 Hrx H0 E0 W) as <-.
+    eexists; split; [eapply RD_stut; eauto|apply simD_refl].
+  - destruct (X eq_refl) as (<- & ->). cbn [app] in W.
+    pose proof (done_same2 _ _ _ _ _ _ _ _ _ _ _ _ _ Hp Hr Hr1 Hrx H0 E0 W) as <-.
+    eexists; split; [eapply RD_stop; eauto|apply simD_refl].
+Qed.
+
+(* one run of feedUntil on the buffer a, seen from the whole stream a ++ T *)
+Lemma fuD_merge : forall n p s a p1 s1 rest d e,
+  ufeed_until n p s a = Ok (UR p1 s1 rest d e) ->
+  pinv p -> a <> [] \/ cstep p = true -> forall T, T <> [] ->
+  (e <> unilE -> exists p1' rest' d', RD p s (a ++ T) (p1', s1, rest', d', e)) /\
+  (e = unilE -> d = true -> RD p s (a ++ T) (p1, s1, rest ++ T, true, unilE)) /\
+  (e = unilE -> d = false -> forall r, RD p1 s1 T r -> exists r', RD p s (a ++ T) r' /\ simD r r').
+Proof.
+  induction n as [|n IH]; intros p s a p1 s1 rest d e H Hp Ha T HT; [discriminate|].
+  cbn [ufeed_until] in H.
+  destruct (uexec_step p s a) as [pa sa ra da ea|w] eqn:E; [|discriminate].
+  pose proof Hp as (HI & Hi & HW).
+  pose proof (exec_dich p s a T HI Ha HT) as D. rewrite E in D. cbn [Dich] in D.
+  assert (HaT : PS.ready p (a ++ T)).
+  { left. destruct a; [exact HT|discriminate]. }
+  destruct (da || negb (unil ea)) eqn:E1.
+  - inversion H; subst; clear H. split; [|split].
+    + intros He. destruct D as [D|(_ & D & _)]; [|congruence].
+      destruct (uexec_step p s (a ++ T)) as [p2 s2 rest2 d2 e2|w] eqn:Wh; cbn [ext] in D; [|contradiction].
+      destruct D as (<- & <- & _). exists p2, rest2, d2. eapply RD_err; eauto.
+    + intros -> ->.
+      destruct (exec_done_ext _ _ _ T _ _ _ HI Ha HT E) as (d' & Wh).
+      pose proof (done_same _ _ _ _ _ _ _ _ _ _ Hp Ha HaT E Wh) as <-.
+      apply RD_done. exact Wh.
+    + intros -> ->. rewrite unil_nil in E1. discriminate E1.
+  - apply orb_false_iff in E1. destruct E1 as [-> En]. apply negb_false_iff, unil_true in En. subst ea.
+    pose proof (pinv_step _ _ _ _ _ _ _ Hp Ha E) as Hp1.
+    destruct ((zlen ra =? 0) && negb (can_step_without_input pa)) eqn:Ec.
+    + inversion H; subst; clear H.
+      apply andb_true_iff in Ec. destruct Ec as [Ec1 Ec2]. apply Z.eqb_eq, zlen_zero in Ec1. subst rest.
+      apply negb_true_iff in Ec2.
+      split; [congruence|]. split; [intros _ K; discriminate K|]. intros _ _ r HR.
+      destruct D as [D|(_ & _ & _ & D)].
+      * destruct (uexec_step p s (a ++ T)) as [p2 s2 rest2 d2 e2|w] eqn:Wh; cbn [ext] in D; [|contradiction].
+        destruct D as (<- & <- & D). destruct (D eq_refl) as (<- & ->). cbn [app] in Wh.
+        pose proof (done_same _ _ _ _ _ _ _ _ _ _ Hp Ha HaT E Wh) as <-.
+        exists r. split; [eapply RD_more; eauto|apply simD_refl].
+      * eapply (RD_ext_nil p s a p1 s1 T (a ++ T)); eauto; exact (D 2%nat).
+    + assert (Ha1 : ra <> [] \/ cstep pa = true).
+      { apply andb_false_iff in Ec. destruct Ec as [Ec|Ec].
+        - left. intros ->. discriminate Ec.
+        - right. apply negb_false_iff in Ec. exact Ec. }
+      destruct (IH _ _ _ _ _ _ _ _ H Hp1 Ha1 T HT) as (IH1 & IH2 & IH3).
+      destruct D as [D|(D1 & _ & D2 & _)]; [|destruct Ha1; congruence].
+      destruct (uexec_step p s (a ++ T)) as [p2 s2 rest2 d2 e2|w] eqn:Wh; cbn [ext] in D; [|contradiction].
+      destruct D as (<- & <- & D). destruct (D eq_refl) as (<- & ->).
+      pose proof (done_same _ _ _ _ _ _ _ _ _ _ Hp Ha HaT E Wh) as <-.
+      assert (Hrt : ra ++ T <> []) by (destruct ra; [exact HT|discriminate]).
+      split; [|split].
+      * intros He. destruct (IH1 He) as (p1' & rest' & d' & R1). exists p1', rest', d'. eapply RD_more; eauto.
+      * intros He Hd. eapply RD_more; eauto.
+      * intros He Hd r HR. destruct (IH3 He Hd r HR) as (r' & R' & S'). exists r'. split; [|exact S'].
+        eapply RD_more; eauto.
+Qed.
+
+(* ---------- the specification of one Next ---------- *)
+Definition nobs := (sink * Z * option (uparser * bytes))%type.
+Definition nobs_fin (p : uparser) (s : sink) : nobs :=
+  let '(p1, s1, e) := ufin p s in (s1, (if unil e then ueEOF else e), None).
+Definition nobs_of (r : rdres) : nobs :=
+  let '(p1, s1, rest, d, e) := r in
+  if unil e then (if d then (s1, unilE, Some (p1, rest)) else nobs_fin p1 s1) else (s1, e, None).
+
+Definition NextW (p : uparser) (s : sink) (T : bytes) (o : nobs) : Prop :=
+  (T = [] /\ o = nobs_fin p s) \/ (T <> [] /\ exists r, RD p s T r /\ o = nobs_of r).
+
+Lemma NextW_det : forall p s T o o', NextW p s T o -> NextW p s T o' -> o = o'.
+Proof.
+  intros p s T o o' [[A ->]|[A (r & R & ->)]] [[A' ->]|[A' (r' & R' & ->)]]; try congruence.
+  rewrite (RD_det _ _ _ _ R _ R'). reflexivity.
+Qed.
+
+Lemma nobs_of_sim : forall r r', simD r r' -> nobs_of r = nobs_of r'.
+Proof.
+  intros [[[[p s] rest] d] e] [[[[p' s'] rest'] d'] e'] (<- & <- & H). cbn [nobs_of].
+  destruct (unil e) eqn:E; [|reflexivity]. apply unil_true in E. destruct (H E) as (<- & <- & <-). reflexivity.
+Qed.
+
+Lemma nobs_fin_notnil : forall p s, snd (fst (nobs_fin p s)) <> unilE.
+Proof.
+  intros p s. unfold nobs_fin. destruct (ufin p s) as [[p1 s1] e]. cbn [fst snd].
+  destruct (unil e) eqn:E; [discriminate|]. apply unil_false. exact E.
+Qed.
+
+(* what the decoder observes after Next *)
+Definition dobs (d' : udecoder) (s' : sink) (e : Z) : nobs :=
+  (s', e, if unil e then Some (ud_p d', urem d') else None).
+
+Lemma pinv_fu : forall n p s b p1 s1 rest d,
+  pinv p -> PS.ready p b -> ufeed_until n p s b = Ok (UR p1 s1 rest d unilE) -> pinv p1.
+Proof.
+  intros n p s b p1 s1 rest d (HI & Hi & HW) Hr H.
+  destruct (fu_mon _ _ _ _ _ _ _ _ Hi HW Hr H) as (l & _ & A & B & _).
+  split; [exact (proj1 (ufeed_until_post _ _ _ _ _ _ _ _ HI H))|]. auto.
+Qed.
+
+(* Next computes NextW of the parser and of everything that is still to come *)
+Lemma udec_next_sound : forall fuel d s d' s' e,
+  pinv (ud_p d) -> uscript_okb (ud_script d) = true ->
+  udec_next fuel d s = Ok (d', s', e) ->
+  NextW (ud_p d) s (urem d) (dobs d' s' e) /\
+  (e = unilE -> pinv (ud_p d') /\ uscript_okb (ud_script d') = true).
+Proof.
+  induction fuel as [|f IH]; intros d s d' s' e Hp Hsc H; [discriminate|].
+  rewrite udec_next_S in H. pose proof (udec_fill_spec d Hsc) as Hf.
+  destruct (udec_fill d) as [d1|sc|d1 e1]; [| |contradiction].
+  - destruct Hf as (Hpp & Hr & Ho & _). rewrite <- Hr, <- Hpp in *.
+    destruct (zlen (ud_buf d1) =? 0) eqn:Eb; [eapply IH; eauto|].
+    assert (Hb : ud_buf d1 <> []) by (intros E; rewrite E in Eb; discriminate Eb).
+    unfold udec_body in H.
+    destruct (ufeed_until _ _ _ _) as [[p1 s1 rest dn err|w]|a|a|] eqn:Hfu; try discriminate.
+    pose proof (feed_until_RD _ _ _ _ _ _ _ _ _ Hfu) as HRD.
+    destruct (unil err) eqn:Ee; cbn [negb] in H.
+    + apply unil_true in Ee. subst err.
+      pose proof (pinv_fu _ _ _ _ _ _ _ _ Hp (or_introl Hb) Hfu) as Hp1.
+      destruct dn.
+      * inversion H; subst d' s' e. split; [|intros _; cbn [ud_p ud_script]; auto].
+        unfold dobs. rewrite unil_nil. cbn [ud_p]. unfold urem at 2. cbn [ud_buf].
+        change (utailb {| ud_p := p1; ud_buf := rest; ud_script := ud_script d1; ud_bytesdec := ud_bytesdec d1 |})
+          with (utailb d1).
+        right. split; [unfold urem; apply app_nonnil; exact Hb|].
+        destruct (utailb d1) as [|t T] eqn:ET.
+        -- unfold urem. rewrite ET, !app_nil_r. eexists. split; [exact HRD|]. reflexivity.
+        -- destruct (fuD_merge _ _ _ _ _ _ _ _ _ Hfu Hp (or_introl Hb) (t :: T) ltac:(discriminate)) as (_ & M & _).
+           unfold urem. rewrite ET. eexists. split; [exact (M eq_refl eq_refl)|]. reflexivity.
+      * destruct (ufeed_until_post _ _ _ _ _ _ _ _ (proj1 Hp) Hfu) as (_ & _ & Hnd).
+        destruct (Hnd eq_refl) as [-> Hcs].
+        match type of H with udec_next f ?d2 _ = _ =>
+          destruct (IH d2 _ _ _ _ Hp1 Ho H) as [A B] end.
+        split; [|exact B]. cbn [ud_p] in A.
+        match type of A with NextW _ _ (urem ?d2) _ => change (urem d2) with (utailb d1) in A end.
+        destruct (utailb d1) as [|t T] eqn:ET.
+        -- destruct A as [[_ A]|[A _]]; [|congruence]. rewrite A.
+           right. unfold urem. rewrite ET, app_nil_r. split; [exact Hb|].
+           eexists. split; [exact HRD|]. reflexivity.
+        -- destruct A as [[A _]|[_ (r & R & A)]]; [discriminate A|].
+           destruct (fuD_merge _ _ _ _ _ _ _ _ _ Hfu Hp (or_introl Hb) (t :: T) ltac:(discriminate)) as (_ & _ & M).
+           destruct (M eq_refl eq_refl r R) as (r' & R' & S').
+           right. unfold urem. rewrite ET. split; [apply app_nonnil; exact Hb|].
+           exists r'. split; [exact R'|]. rewrite A. apply nobs_of_sim. exact S'.
+    + inversion H; subst d' s' e. split; [|intros ->; discriminate Ee].
+      unfold dobs. rewrite Ee.
+      right. split; [unfold urem; apply app_nonnil; exact Hb|].
+      assert (He : err <> unilE) by (apply unil_false; exact Ee).
+      destruct (utailb d1) as [|t T] eqn:ET.
+      * unfold urem. rewrite ET, app_nil_r. eexists. split; [exact HRD|]. cbn [nobs_of]. rewrite Ee. reflexivity.
+      * destruct (fuD_merge _ _ _ _ _ _ _ _ _ Hfu Hp (or_introl Hb) (t :: T) ltac:(discriminate)) as (M & _ & _).
+        destruct (M He) as (p1' & rest' & d' & R1). unfold urem. rewrite ET.
+        eexists. split; [exact R1|]. cbn [nobs_of]. rewrite Ee. reflexivity.
+  - destruct Hf as [Hr Ho]. unfold udec_fin in H.
+    destruct (ufin (ud_p d) s) as [[p1 s1] e0] eqn:Ef. inversion H; subst d' s' e.
+    assert (Hne : unil (if unil e0 then ueEOF else e0) = false).
+    { destruct (unil e0) eqn:E0; [reflexivity|exact E0]. }
+    split; [|intros K; rewrite K in Hne; discriminate Hne].
+    left. split; [exact Hr|]. unfold dobs, nobs_fin. rewrite Hne, Ef. reflexivity.
+Qed.
+
+
+(* ====================================================================== *)
+(* Part 8: C18 - script independence, call by call                         *)
+(* ====================================================================== *)
+(* Two decoders with the same parser and the same bytes still to come - however these are
+   split between the buffer and the reads of a well-behaved reader, with or without empty
+   reads, wherever io.EOF is reported; a bytes decoder is the case "everything is in the
+   buffer" - deliver the same events and the same verdict in their next Next, and after a
+   nil verdict they are again such a pair. *)
+Theorem C18_ubj_script_independent_next : forall f1 f2 d1 d2 s d1' s1' e1 d2' s2' e2,
+  pinv (ud_p d1) -> uscript_okb (ud_script d1) = true -> uscript_okb (ud_script d2) = true ->
+  ud_p d1 = ud_p d2 -> urem d1 = urem d2 ->
+  udec_next f1 d1 s = Ok (d1', s1', e1) -> udec_next f2 d2 s = Ok (d2', s2', e2) ->
+  s1' = s2' /\ e1 = e2 /\
+  (e1 = unilE -> ud_p d1' = ud_p d2' /\ urem d1' = urem d2' /\ pinv (ud_p d1') /\
+                 uscript_okb (ud_script d1') = true /\ uscript_okb (ud_script d2') = true).
+Proof.
+  intros f1 f2 d1 d2 s d1' s1' e1 d2' s2' e2 Hp Hs1 Hs2 Ep Er H1 H2.
+  destruct (udec_next_sound _ _ _ _ _ _ Hp Hs1 H1) as [N1 P1].
+  assert (Hp2 : pinv (ud_p d2)) by (rewrite <- Ep; exact Hp).
+  destruct (udec_next_sound _ _ _ _ _ _ Hp2 Hs2 H2) as [N2 P2].
+  rewrite <- Ep, <- Er in N2. pose proof (NextW_det _ _ _ _ _ N1 N2) as E.
+  unfold dobs in E. inversion E as [[A B C]]. subst s2' e2.
+  split; [reflexivity|]. split; [reflexivity|]. intros ->. rewrite unil_nil in C. inversion C as [[C1 C2]].
+  destruct (P1 eq_refl) as [Q1 Q2]. destruct (P2 eq_refl) as [_ Q3]. auto.
+Qed.
+
+(* the observable behaviour of up to k calls of Next: the visitor's log and the verdict
+   after each call, stopping at the first non-nil verdict *)
+Fixpoint udec_run (fuel k : nat) (d : udecoder) (s : sink) : res (list (list event * Z)) :=
+  match k with
+  | O => Ok []
+  | S k' =>
+      match udec_next fuel d s with
+      | Ok (d', s', e) =>
+          if unil e then
+            match udec_run fuel k' d' s' with
+            | Ok l => Ok ((s_log s', e) :: l)
+            | x => x
+            end
+          else Ok [(s_log s', e)]
+      | Err e => Err e | Panic w => Panic w | OutOfFuel => OutOfFuel
+      end
+  end.
+
+Theorem C18_ubj_script_independent : forall k f1 f2 d1 d2 s l1 l2,
+  pinv (ud_p d1) -> uscript_okb (ud_script d1) = true -> uscript_okb (ud_script d2) = true ->
+  ud_p d1 = ud_p d2 -> urem d1 = urem d2 ->
+  udec_run f1 k d1 s = Ok l1 -> udec_run f2 k d2 s = Ok l2 -> l1 = l2.
+Proof.
+  induction k as [|k IH]; intros f1 f2 d1 d2 s l1 l2 Hp Hs1 Hs2 Ep Er H1 H2; cbn [udec_run] in H1, H2.
+  - congruence.
+  - destruct (udec_next f1 d1 s) as [[[d1' s1'] e1]| | |] eqn:E1; try discriminate.
+    destruct (udec_next f2 d2 s) as [[[d2' s2'] e2]| | |] eqn:E2; try discriminate.
+    destruct (C18_ubj_script_independent_next _ _ _ _ _ _ _ _ _ _ _ Hp Hs1 Hs2 Ep Er E1 E2) as (<- & <- & K).
+    destruct (unil e1) eqn:Ee.
+    + apply unil_true in Ee. subst e1. destruct (K eq_refl) as (Kp & Kr & Kpi & Ks1 & Ks2).
+      destruct (udec_run f1 k d1' s1') as [l1'| | |] eqn:R1; try discriminate.
+      destruct (udec_run f2 k d2' s1') as [l2'| | |] eqn:R2; try discriminate.
+      rewrite (IH _ _ _ _ _ _ _ Kpi Ks1 Ks2 Kp Kr R1 R2) in H1. congruence.
+    + congruence.
+Qed.
+
+(* with the guard of C03 the runs return *)
+Lemma udec_run_total : forall k fuel d s, udec_good d -> (umeasure d < fuel)%nat ->
+  exists l, udec_run fuel k d s = Ok l.
+Proof.
+  induction k as [|k IH]; intros fuel d s Hg Hm; cbn [udec_run]; [eauto|].
+  destruct (C18_ubj_next_total fuel d s Hg Hm) as (d' & s' & e & H & Hnil). rewrite H.
+  destruct (unil e) eqn:Ee; [|eauto].
+  apply unil_true in Ee. destruct (Hnil Ee) as (Hg' & _ & _ & _ & Hm').
+  destruct (IH fuel d' s' Hg') as (l & Hl); [lia|]. rewrite Hl. eauto.
+Qed.
+
+(* C18: two well-behaved scripts with the same data give the same events and the same verdict
+   for EACH of the first k calls of Next (and the runs return, under the guard of C03) *)
+Theorem C18_ubj_scripts_same_data_next : forall k sc1 sc2 s fuel,
+  uscript_okb sc1 = true -> uscript_okb sc2 = true ->
+  concat (map fst sc1) = concat (map fst sc2) ->
+  PS.no_zero_typed (concat (map fst sc1)) = true ->
+  (2 * length sc1 + 1 <= fuel)%nat -> (2 * length sc2 + 1 <= fuel)%nat ->
+  exists l, udec_run fuel k (ureader_dec sc1) s = Ok l /\ udec_run fuel k (ureader_dec sc2) s = Ok l.
+Proof.
+  intros k sc1 sc2 s fuel H1 H2 Hc Hz Hf1 Hf2.
+  destruct (udec_run_total k fuel (ureader_dec sc1) s) as (l1 & R1).
+  { apply udec_good_reader; assumption. }
+  { unfold umeasure, ureader_dec. cbn [ud_script ud_buf]. lia. }
+  destruct (udec_run_total k fuel (ureader_dec sc2) s) as (l2 & R2).
+  { apply udec_good_reader; [assumption|]. rewrite <- Hc. exact Hz. }
+  { unfold umeasure, ureader_dec. cbn [ud_script ud_buf]. lia. }
+  exists l1. split; [exact R1|]. rewrite R2. f_equal. symmetry.
+  apply (C18_ubj_script_independent k fuel fuel (ureader_dec sc1) (ureader_dec sc2) s l1 l2 pinv0 H1 H2 eq_refl);
+    [|exact R1|exact R2].
+  unfold urem, utailb, ureader_dec. cbn [ud_buf ud_script ud_bytesdec app]. exact Hc.
+Qed.
+
+(* a reader decoder behaves, call by call, like the bytes decoder on everything the reader delivers *)
+Corollary C18_ubj_reader_as_bytes_next : forall k f1 f2 sc s l1 l2,
+  uscript_okb sc = true ->
+  udec_run f1 k (ureader_dec sc) s = Ok l1 ->
+  udec_run f2 k (ubytes_dec (concat (map fst sc))) s = Ok l2 -> l1 = l2.
+Proof.
+  intros k f1 f2 sc s l1 l2 Hsc H1 H2.
+  apply (C18_ubj_script_independent k f1 f2 (ureader_dec sc) (ubytes_dec (concat (map fst sc))) s l1 l2
+           pinv0 Hsc eq_refl eq_refl); [|exact H1|exact H2].
+  unfold urem, utailb, ureader_dec, ubytes_dec. cbn [ud_buf ud_script ud_bytesdec app]. rewrite app_nil_r. reflexivity.
+Qed.
+
+
+(* ====================================================================== *)
+(* Part 9: C18 - a stream of k documents                                   *)
+(* ====================================================================== *)
+(* what k successful calls followed by io.EOF look like: after each call the log has
+   grown by exactly the events of the next tree *)
+Fixpoint uexpect (log : list event) (ts : list tree) : list (list event * Z) :=
+  match ts with
+  | [] => [(log, ueEOF)]
+  | t :: r => (log ++ flatten t, unilE) :: uexpect (log ++ flatten t) r
+  end.
+
+(* a document: accepted by the reference decoder, within the resource guard of C06 *)
+Definition doc_ok (b : bytes) : Prop :=
+  all_bytes b = true /\ CP.no_huge_zero_typed b = true /\ exists v, ubj_decode b = RValue v [].
+Definition doc_tree (b : bytes) (t : tree) : Prop :=
+  wf_tree t = true /\ ubj_decode b = RValue (cv (value_of t)) [].
+
+(* the decoder between two documents, one read per document *)
+Definition ddoc (vt : btype) (sc : list (bytes * Z)) : udecoder :=
+  {| ud_p := svt uparser0 vt; ud_buf := []; ud_script := sc; ud_bytesdec := false |}.
+Definition doc_script (docs : list bytes) : list (bytes * Z) := map (fun b => (b, 0)) docs.
+
+Lemma doc_script_ok : forall docs, uscript_okb (doc_script docs) = true.
+Proof.
+  induction docs as [|b r IH]; [reflexivity|]. unfold doc_script in *. cbn [map uscript_okb].
+  destruct (map (fun b0 : bytes => (b0, 0)) r) eqn:E; [reflexivity|]. exact IH.
+Qed.
+Lemma doc_script_data : forall docs, concat (map fst (doc_script docs)) = concat docs.
+Proof.
+  induction docs as [|b r IH]; [reflexivity|]. unfold doc_script in *. cbn [map fst concat]. rewrite IH. reflexivity.
+Qed.
+
+(* one document in the buffer, any parser that is fresh-like *)
+Lemma doc_feed : forall b v vt s, all_bytes b = true -> CP.no_huge_zero_typed b = true ->
+  ubj_decode b = RValue v [] -> s_fail s = None ->
+  exists t vt', wf_tree t = true /\ cv (value_of t) = v /\
+    ufeed_until (ufeed_fuel (svt uparser0 vt) b) (svt uparser0 vt) s b =
+      Ok (UR (svt uparser0 vt') (s_add s (flatten t)) [] true unilE).
+Proof.
+  intros b v vt s Hb Hz H Hs. unfold ubj_decode in H. unfold CP.no_huge_zero_typed in Hz.
+  destruct (CP.top_value _ b v [] H Hb s Hs) as (t & n & vt0 & Hwf & Hcv & Hbud & _ & Hreach).
+  change (zlen (@nil Z)) with 0 in Hbud. rewrite CP.ztc_nil in Hbud.
+  assert (Hne : b <> []) by (intros ->; discriminate H).
+  set (F := ufeed_fuel uparser0 b).
+  assert (HF : (n + 1 <= F)%nat).
+  { unfold F, ufeed_fuel. change (length (up_stack uparser0)) with 0%nat.
+    assert (HK : Z.of_nat 8000 = 8000) by (vm_compute; reflexivity).
+    unfold zlen in *. lia. }
+  assert (E0 : ufeed_until F uparser0 s b = Ok (UR (svt uparser0 vt0) (s_add s (flatten t)) [] true unilE)).
+  { replace F with (S (n + (F - S n)))%nat by lia.
+    rewrite CP.ufeed_until_S, Hreach. cbn [CP.ufu_cont orb]. reflexivity. }
+  assert (Hrel : rel uparser0 (svt uparser0 vt)) by (apply rel0; apply veq_svt_l).
+  pose proof (fu_rel F uparser0 (svt uparser0 vt) s b Hrel safeY0 (or_introl Hne)) as R.
+  rewrite E0 in R. change (ufeed_fuel (svt uparser0 vt) b) with F.
+  destruct (ufeed_until F (svt uparser0 vt) s b) as [[q1 s1 rest1 d1 e1|w]|a|a|]; cbn [resU_rel ures_rel] in R;
+    try contradiction.
+  destruct R as (-> & -> & -> & -> & Hv & _).
+  exists t, (up_vtype q1). split; [exact Hwf|]. split; [exact Hcv|].
+  apply veq_svt in Hv. rewrite Hv. reflexivity.
+Qed.
+
+Lemma doc_next : forall b v vt rest s f, all_bytes b = true -> CP.no_huge_zero_typed b = true ->
+  ubj_decode b = RValue v [] -> s_fail s = None ->
+  exists t vt', wf_tree t = true /\ cv (value_of t) = v /\
+    udec_next (S (S f)) (ddoc vt ((b, 0) :: rest)) s = Ok (ddoc vt' rest, s_add s (flatten t), unilE).
+Proof.
+  intros b v vt rest s f Hb Hz H Hs.
+  destruct (doc_feed b v vt s Hb Hz H Hs) as (t & vt' & Hwf & Hcv & E).
+  exists t, vt'. split; [exact Hwf|]. split; [exact Hcv|].
+  assert (Hne : b <> []) by (intros ->; discriminate H).
+  rewrite udec_next_S. unfold udec_fill, ddoc. cbn [ud_buf ud_bytesdec ud_script ud_p].
+  change (zlen (@nil Z) =? 0) with true. cbv iota. change (negb (0 =? 0)) with false. rewrite andb_false_r.
+  cbn [ud_buf]. rewrite (zlen_eqb_nil b Hne).
+  unfold udec_body. cbn [ud_p ud_buf ud_script ud_bytesdec]. rewrite E. reflexivity.
+Qed.
+
+Lemma s_log_s_add : forall s l, s_log (s_add s l) = s_log s ++ l.
+Proof. intros. exact (CP.sadd_log s l). Qed.
+
+(* the reference run: one read per document *)
+Lemma docs_run : forall docs s vt fuel, Forall doc_ok docs -> s_fail s = None -> (2 <= fuel)%nat ->
+  exists ts, Forall2 doc_tree docs ts /\
+    udec_run fuel (S (length docs)) (ddoc vt (doc_script docs)) s = Ok (uexpect (s_log s) ts).
+Proof.
+  induction docs as [|b r IH]; intros s vt fuel Hd Hs Hf.
+  - exists []. split; [constructor|].
+    destruct fuel as [|f]; [lia|]. cbn [length udec_run]. rewrite udec_next_S.
+    unfold udec_fill, ddoc, doc_script. cbn [map ud_buf ud_bytesdec ud_script].
+    change (zlen (@nil Z) =? 0) with true. cbv iota. unfold udec_fin. cbn [ud_p ud_bytesdec].
+    rewrite ufin_svt. change (ufin uparser0 s) with (uparser0, s, unilE). cbv beta iota.
+    rewrite unil_nil. change (unil ueEOF) with false. cbv iota. reflexivity.
+  - inversion Hd as [|b0 r0 (Hb & Hz & v & Hv) Hr]; subst.
+    destruct fuel as [|[|f]]; try lia.
+    destruct (doc_next b v vt (doc_script r) s f Hb Hz Hv Hs) as (t & vt' & Hwf & Hcv & E).
+    destruct (IH (s_add s (flatten t)) vt' (S (S f)) Hr Hs Hf) as (ts & HF & Hrun).
+    exists (t :: ts). split; [constructor; [|exact HF]; split; [exact Hwf|rewrite Hcv; exact Hv]|].
+    cbn [length]. change (udec_run (S (S f)) (S (S (length r))) (ddoc vt (doc_script (b :: r))) s)
+      with (match udec_next (S (S f)) (ddoc vt ((b, 0) :: doc_script r)) s with
+            | Ok (d', s', e) =>
+                if unil e then
+                  match udec_run (S (S f)) (S (length r)) d' s' with
+                  | Ok l => Ok ((s_log s', e) :: l)
+                  | x => x
+                  end
+                else Ok [(s_log s', e)]
+            | Err e => Err e | Panic w => Panic w | OutOfFuel => OutOfFuel
+            end).
+    rewrite E, unil_nil, Hrun, s_log_s_add. reflexivity.
+Qed.
+
+(* C18, whole stream (the analogue of C18_cbor_reader_stream): if the bytes delivered by a
+   well-behaved reader - in reads of any sizes, with or without empty reads - are the
+   concatenation of k documents, each accepted by the reference decoder, then k calls of Next
+   succeed, each delivering exactly the events of the next document's tree (which is well-formed
+   and has the value the reference decoder computes), and the (k+1)-th call reports io.EOF. *)
+Theorem C18_ubj_reader_stream_partial : forall docs sc fuel s l,
+  Forall doc_ok docs -> uscript_okb sc = true -> concat (map fst sc) = concat docs ->
+  s_fail s = None ->
+  udec_run fuel (S (length docs)) (ureader_dec sc) s = Ok l ->
+  exists ts, Forall2 doc_tree docs ts /\ l = uexpect (s_log s) ts.
+Proof.
+  intros docs sc fuel s l Hd Hsc Hc Hs Hrun.
+  destruct (docs_run docs s BAny 2 Hd Hs (le_n 2)) as (ts & HF & R0).
+  exists ts. split; [exact HF|].
+  apply (C18_ubj_script_independent (S (length docs)) fuel 2 (ureader_dec sc) (ddoc BAny (doc_script docs)) s
+           l (uexpect (s_log s) ts) pinv0 Hsc (doc_script_ok docs) eq_refl); [|exact Hrun|exact R0].
+  unfold urem, utailb, ureader_dec, ddoc. cbn [ud_buf ud_script ud_bytesdec app].
+  rewrite doc_script_data. exact Hc.
+Qed.
+
+(* ... and these k+1 calls do return, under the guard of C03 *)
+Theorem C18_ubj_reader_stream : forall docs sc fuel s,
+  Forall doc_ok docs -> uscript_okb sc = true -> concat (map fst sc) = concat docs ->
+  PS.no_zero_typed (concat docs) = true -> s_fail s = None ->
+  (2 * length sc + 1 <= fuel)%nat ->
+  exists ts, Forall2 doc_tree docs ts /\
+    udec_run fuel (S (length docs)) (ureader_dec sc) s = Ok (uexpect (s_log s) ts).
+Proof.
+  intros docs sc fuel s Hd Hsc Hc Hz Hs Hf.
+  destruct (udec_run_total (S (length docs)) fuel (ureader_dec sc) s) as (l & Hl).
+  { apply udec_good_reader; [exact Hsc|]. rewrite Hc. exact Hz. }
+  { unfold umeasure, ureader_dec. cbn [ud_script ud_buf]. lia. }
+  destruct (C18_ubj_reader_stream_partial docs sc fuel s l Hd Hsc Hc Hs Hl) as (ts & HF & ->).
+  exists ts. split; [exact HF|exact Hl].
+Qed.
+
+(* C18, one Next, with totality: under the guard of C03 a Next between two values returns; if
+   it returns nil it has delivered the events of exactly one value (one tree: at least one
+   event, balanced, nothing of the next value), has consumed at least one byte, and the
+   decoder is between two values again. *)
+Corollary C18_ubj_next_one_value : forall fuel d s,
+  dtop d -> udec_good d -> (umeasure d < fuel)%nat ->
+  exists d' s' e, udec_next fuel d s = Ok (d', s', e) /\
+    (e = unilE -> exists t, s' = s_add s (flatten t) /\ flatten t <> [] /\ dtop d' /\ udec_good d' /\
+                            (length (urem d') < length (urem d))%nat).
+Proof.
+  intros fuel d s Ht Hg Hm.
+  destruct (C18_ubj_next_total fuel d s Hg Hm) as (d' & s' & e & H & Hnil).
+  exists d', s', e. split; [exact H|]. intros ->.
+  destruct (C18_ubj_next_tree fuel d s d' s' Ht H) as (t & E & Ht').
+  destruct (Hnil eq_refl) as (Hg' & _ & _ & Hlt & _).
+  exists t. split; [exact E|]. split; [apply flatten_nonempty|]. split; [exact Ht'|]. split; [exact Hg'|].
+  apply Hlt. destruct Ht as (_ & Hc & _). rewrite Hc. reflexivity.
+Qed.
+
+
+(* ====================================================================== *)
+(* Part 10: the balance of the valueState stack (no guard needed)          *)
+(* ====================================================================== *)
+(* vw: the states of a typed container after stepType has pushed its element state.
+   vshape: each of them owns one entry of (valueState, valueState stack); below them
+   lies the initial (stFail, empty stack). *)
+Definition vw (c : ustate) : bool :=
+  PS.st_in c [(8,14);(8,15);(8,13);(8,16);(12,14);(12,15);(12,13);(12,17);(12,18);(12,16)].
+
+Fixpoint vshape (S : list ustate) (vc : ustate) (vs : list ustate) : bool :=
+  match S with
+  | [] => (u_t vc =? 0) && match vs with [] => true | _ :: _ => false end
+  | c :: r =>
+      if vw c then
+        negb (u_t vc =? 0) &&
+        match vs with [] => vshape r (mku tFail sStart) [] | v :: vs' => vshape r v vs' end
+      else vshape r vc vs
+  end.
+
+Definition VB (p : uparser) : Prop := vshape (up_cur p :: up_stack p) (up_vcur p) (up_vstack p) = true.
+
+Lemma vshape_cons : forall c r vc vs, vshape (c :: r) vc vs =
+  if vw c then
+    negb (u_t vc =? 0) &&
+    match vs with [] => vshape r (mku tFail sStart) [] | v :: vs' => vshape r v vs' end
+  else vshape r vc vs.
+Proof. reflexivity. Qed.
+
+Lemma vshape_c0 : forall c r vc vs, vw c = false -> vshape (c :: r) vc vs = vshape r vc vs.
+Proof. intros c r vc vs H. rewrite vshape_cons, H. reflexivity. Qed.
+
+Lemma vshape_fail : forall S vc vs, vshape S vc vs = true -> (u_t vc =? 0) = true ->
+  vs = [] /\ vshape S (mku tFail sStart) [] = true.
+Proof.
+  induction S as [|c r IH]; intros vc vs H Hz.
+  - cbn [vshape] in H. rewrite Hz in H. destruct vs; [auto|discriminate H].
+  - rewrite vshape_cons in *. destruct (vw c).
+    + rewrite Hz in H. discriminate H.
+    + apply (IH vc vs); assumption.
+Qed.
+
+Lemma vstate_factsV : forall c, PS.st_in c PS.vstates = true -> vw c = false.
+Proof.
+  intros [t s] H. apply PS.st_in_In in H. cbn in H.
+  repeat (destruct H as [H|H]; [injection H as <- <-; reflexivity|]). contradiction.
+Qed.
+
+Definition postV (r : ures) : Prop :=
+  match r with
+  | UCrash _ => True
+  | UR p1 _ _ _ err => unil err = true -> VB p1
+  end.
+Lemma postV_nodone : forall r, postV r -> postV (value_nodone r).
+Proof. intros [p1 s rest d err|w] H; exact H. Qed.
+Lemma postV_latch : forall r, postV r -> postV (PS.latch r).
+Proof.
+  intros [p1 s rest d err|w] H; cbn [PS.latch]; [|exact H].
+  destruct (unil err) eqn:E; [exact H|]. cbn [postV]. intro H1. congruence.
+Qed.
+
+Arguments vw : simpl never.
+Arguments vshape : simpl never.
+Arguments VB : simpl never.
+
+Opaque ustep_len ucollect ustep_value uvis wraps be_dec marker_state marker_btype.
+
+Ltac vw_eval_in H :=
+  repeat match type of H with
+  | context[vw {| u_t := ?a; u_s := ?b |}] =>
+      let v := eval vm_compute in (vw {| u_t := a; u_s := b |}) in
+      change (vw {| u_t := a; u_s := b |}) with v in H
+  end.
+Ltac vsh_goal :=
+  repeat first
+    [ match goal with
+      | |- context[vshape ({| u_t := ?a; u_s := ?b |} :: ?r) ?vc ?vs] =>
+          rewrite (vshape_cons {| u_t := a; u_s := b |} r vc vs);
+          let v := eval vm_compute in (vw {| u_t := a; u_s := b |}) in
+          change (vw {| u_t := a; u_s := b |}) with v; cbv iota
+      end
+    | match goal with
+      | Hv : PS.st_in ?c PS.vstates = true |- context[vshape (?c :: ?r) ?vc ?vs] =>
+          rewrite (vshape_c0 c r vc vs (vstate_factsV c Hv))
+      end ].
+
+Lemma ubody0_V : forall rec p s b, PS.inv1b p = true -> VB p -> PS.ready p b ->
+  (u_t (up_cur p) = tArrayTyped ->
+   forall p' s', PS.inv1b p' = true -> VB p' -> u_t (up_cur p') <> tArrayTyped -> PS.ready p' b ->
+     postV (rec p' s' b)) ->
+  postV (PS.ubody0 rec p s b).
+Proof.
+  intros rec p s b Hi HV Hr Hrec.
+  destruct (PS.inv1b_split _ Hi) as (H1 & H2 & H3 & H4 & H5).
+  destruct p as [[t st] stk vc vs lc ls buf mk vt er].
+  unfold VB in HV.
+  cbn [up_cur up_stack up_vcur up_vstack up_lcur up_lstack] in H1, H2, H3, H4, H5, HV.
+  destruct (PS.vstate_cur _ H4) as (V1 & V2 & V3).
+  apply PS.st_in_In in H1. cbn in H1.
+  repeat (destruct H1 as [H1|H1]; [injection H1 as <- <-|]); try contradiction.
+  all: cbn in H3.
+  all: rewrite vshape_cons in HV; vw_eval_in HV; cbv iota in HV.
+  all: try (apply andb_true_iff in HV; destruct HV as [Hnf HV]; apply negb_true_iff in Hnf).
+  all: destruct b as [|x r]; [ destruct Hr as [Hr|Hr]; [congruence|]; try (discriminate Hr); cbn in Hr |].
+  all: unfold PS.ubody0.
+  all: cbn -[Z.sub].
+  all: PS.crunch1.
+  all: try contradiction.
+  all: try (intro Hu'; try congruence; try (rewrite Hu' in *; discriminate)).
+  all: PS.norm.
+  all: try exact I.
+  all: try solve [
+    unfold VB, u_pop, ul_pop, v_pop;
+    repeat (progress (cbn [up_cur up_stack up_vcur up_vstack up_lstack up_lcur uset_cur uset_lcur] in *; list_cases));
+    vsh_goal; rewrite ?Hnf; cbn [negb andb]; first [ exact HV | (rewrite HV; reflexivity) ] ].
+  all: try solve [
+    match goal with
+    | Hm : marker_state _ = Some ?u |- VB _ =>
+        let Hu := fresh "Hu" in
+        assert (Hu : (u_t u =? 0) = false)
+          by (destruct (marker_state_mid _ _ Hm) as [_ K]; apply Z.eqb_neq; exact K);
+        unfold VB; cbn [up_cur up_stack up_vcur up_vstack]; vsh_goal; rewrite Hu; cbn [negb andb];
+        first [ exact HV
+              | match goal with Hz : (u_t _ =? tFail) = true |- _ =>
+                  let K := fresh "K" in destruct (vshape_fail _ _ _ HV Hz) as [-> K]; exact K end ]
+    end ].
+  all: apply postV_nodone; apply Hrec;
+    [ reflexivity
+    | apply PS.inv1b_join; cbn [up_cur up_stack up_vcur up_vstack up_lcur forallb]; rewrite ?V2, ?H2; auto
+    | unfold VB; cbn [up_cur up_stack up_vcur up_vstack]; vsh_goal; rewrite ?Hnf; cbn [negb andb]; exact HV
+    | exact V3
+    | first [ left; discriminate
+            | right; apply PS.zero_sized_can_step; cbn [up_cur];
+              repeat match goal with H : (_ =? 0) = false |- _ => rewrite H in Hr end; exact Hr ] ].
+Qed.
+
+Transparent ustep_len ucollect ustep_value uvis wraps be_dec marker_state marker_btype.
+
+Lemma ubody_V : forall rec p s b, PS.inv1b p = true -> VB p -> PS.ready p b ->
+  (u_t (up_cur p) = tArrayTyped ->
+   forall p' s', PS.inv1b p' = true -> VB p' -> u_t (up_cur p') <> tArrayTyped -> PS.ready p' b ->
+     postV (rec p' s' b)) ->
+  postV (PS.ubody rec p s b).
+Proof. intros. unfold PS.ubody. apply postV_latch. apply ubody0_V; assumption. Qed.
+
+Lemma uexec_step_V : forall p s b, PS.inv1b p = true -> VB p -> PS.ready p b -> postV (uexec_step p s b).
+Proof.
+  intros p s b Hi HV Hr. unfold uexec_step. rewrite PS.uexec_S. apply ubody_V; try assumption.
+  intros _ p' s' Hi' HV' Ht' Hr'. rewrite PS.uexec_S. apply ubody_V; try assumption.
+  intro X; contradiction.
+Qed.
+
+
+(* ---------- the balance through the loops ---------- *)
+Lemma fu_VB : forall n p s b p1 s1 rest d,
+  PS.inv1b p = true -> VB p -> PS.ready p b -> ufeed_until n p s b = Ok (UR p1 s1 rest d unilE) ->
+  PS.inv1b p1 = true /\ VB p1.
+Proof.
+  induction n as [|n IH]; intros p s b p1 s1 rest d Hi HV Hr H; [discriminate|].
+  cbn [ufeed_until] in H.
+  pose proof (uexec_step_V p s b Hi HV Hr) as V. pose proof (PS.uexec_step_safe1 p s b Hi Hr) as P.
+  destruct (uexec_step p s b) as [pa sa ra da ea|w] eqn:E; [|discriminate].
+  cbn [postV PS.post1] in V, P.
+  destruct (da || negb (unil ea)) eqn:E1.
+  - inversion H; subst. split; [exact (P eq_refl)|exact (V eq_refl)].
+  - apply orb_false_iff in E1. destruct E1 as [-> En]. apply negb_false_iff in En.
+    destruct ((zlen ra =? 0) && negb (can_step_without_input pa)) eqn:Ec.
+    + inversion H; subst. split; [exact (P eq_refl)|exact (V eq_refl)].
+    + eapply IH; [exact (P En)|exact (V En)| |exact H].
+      apply andb_false_iff in Ec. destruct Ec as [Ec|Ec].
+      * left. intros ->. discriminate Ec.
+      * right. apply negb_false_iff in Ec. exact Ec.
+Qed.
+
+Lemma feed_VB : forall n p s b p1 s1,
+  PS.inv1b p = true -> VB p -> ufeed n p s b = Ok (p1, s1, unilE) -> PS.inv1b p1 = true /\ VB p1.
+Proof.
+  induction n as [|n IH]; intros p s b p1 s1 Hi HV H; [discriminate|].
+  cbn [ufeed] in H. destruct (zlen b >? 0) eqn:Eb; [|inversion H; subst; auto].
+  destruct (ufeed_until (ufeed_fuel p b) p s b) as [[pa sa ra da ea|w]|a|a|] eqn:E; try discriminate.
+  destruct (unil ea) eqn:Ee; [|inversion H; subst; discriminate Ee].
+  apply unil_true in Ee. subst ea.
+  assert (Hr : PS.ready p b) by (left; intros ->; discriminate Eb).
+  destruct (fu_VB _ _ _ _ _ _ _ _ Hi HV Hr E) as [A B].
+  eapply IH; eauto.
+Qed.
+
+Lemma write_VB : forall p s b p1 s1,
+  PS.inv1b p = true -> VB p -> up_write p s b = Ok (p1, s1, unilE) -> PS.inv1b p1 = true /\ VB p1.
+Proof.
+  intros p s b p1 s1 Hi HV H. unfold up_write in H.
+  destruct (ufeed (2 * length b + 2) p s b) as [[[q sq] e]|a|a|] eqn:E; try discriminate.
+  destruct (unil e) eqn:Ee; [|inversion H; subst; discriminate Ee].
+  apply unil_true in Ee. subst e. inversion H; subst.
+  destruct (feed_VB _ _ _ _ _ _ Hi HV E) as [A B].
+  split; [rewrite PS.inv1b_set_err; exact A|exact B].
+Qed.
+
+Lemma VB_top : forall p, PS.inv1b p = true -> up_cur p = mku tNext sStart -> up_stack p = [] -> VB p ->
+  up_vcur p = mku tFail sStart /\ up_vstack p = [].
+Proof.
+  intros p Hi Hc Hs H. unfold VB in H. rewrite Hc, Hs in H. rewrite vshape_cons in H.
+  change (vw (mku tNext sStart)) with false in H. cbv iota in H. unfold vshape in H.
+  apply andb_true_iff in H. destruct H as [H1 H2].
+  destruct (up_vstack p) as [|x l]; [|discriminate H2]. split; [|reflexivity].
+  destruct (PS.inv1b_split _ Hi) as (_ & _ & _ & H4 & _). apply Z.eqb_eq in H1.
+  destruct (up_vcur p) as [t st]. cbn [u_t] in H1. subst t. apply PS.st_in_In in H4. cbn in H4.
+  repeat (destruct H4 as [H4|H4]; [injection H4; intros; subst; first [reflexivity|congruence]|]). contradiction.
+Qed.
+
+Lemma idle_fresh' : forall p, top p -> PS.inv1b p = true -> LB p -> VB p -> fresh_like p.
+Proof.
+  intros p (Hc & Hs & Hb & Hm & He) Hi HL HV.
+  destruct (VB_top p Hi Hc Hs HV) as [Hv Hvs].
+  destruct (LB_top p Hc Hs HL) as [Hl Hls].
+  unfold fresh_like, veq, uparser0. cbn [up_cur up_stack up_vcur up_vstack up_lcur up_lstack up_buf up_marker up_err].
+  repeat split; congruence.
+Qed.
+
+(* the state between two Write calls of an accepted run, without a guard on the input *)
+Definition between' (p : uparser) : Prop :=
+  Inv p /\ PS.inv1b p = true /\ LB p /\ VB p /\ cstep p = false.
+
+Lemma between0' : between' uparser0.
+Proof. split; [exact Inv0|]. repeat split. Qed.
+
+Lemma between_fin' : forall p s p' s', between' p -> ufin p s = (p', s', unilE) -> fresh_like p'.
+Proof.
+  intros p s p' s' (HI & Hi & HL & HV & Hc) H.
+  destruct (ufin_top _ _ _ _ HI H) as [Ht _].
+  unfold ufin in H. destruct (ufinalize_nostep _ _ _ _ _ Hc H) as [-> ->].
+  apply idle_fresh'; assumption.
+Qed.
+
+Lemma between_write' : forall p s c p1 s1, between' p ->
+  up_write p s c = Ok (p1, s1, unilE) -> between' p1.
+Proof.
+  intros p s c p1 s1 (HI & Hi & HL & HV & Hc) H.
+  destruct (write_VB _ _ _ _ _ Hi HV H) as [A B].
+  pose proof (write_rel p p s c (rel_refl p) (conj Hi HL)) as W. rewrite H in W. cbn [fres_rel] in W.
+  destruct W as (_ & _ & _ & W). destruct (W eq_refl) as [_ [_ HL1]].
+  split; [eapply up_write_inv; eauto|]. split; [exact A|]. split; [exact HL1|]. split; [exact B|].
+  destruct (up_write_Ok _ _ _ _ _ _ H) as (q & F & Eq). rewrite unil_nil in Eq. subst p1.
+  change (cstep (uset_err q 0)) with (cstep q).
+  destruct F as [[-> F]|[Hn F]].
+  - inversion F; subst. exact Hc.
+  - exact (R_end_nostep _ _ _ _ F HI eq_refl).
+Qed.
+
+Lemma between_writes' : forall chunks p s p' s', between' p ->
+  up_writes p s chunks = Ok (p', s', unilE) -> fresh_like p'.
+Proof.
+  induction chunks as [|c r IH]; intros p s p' s' Hb H; cbn [up_writes] in *.
+  - inversion H as [H0]. eapply between_fin'; eauto.
+  - destruct (up_write p s c) as [[[p1 s1] e]|a|a|] eqn:Ew; try discriminate H.
+    destruct (unil e) eqn:Ee.
+    + apply unil_true in Ee. subst e. eapply IH; [|exact H]. eapply between_write'; eauto.
+    + inversion H; subst. discriminate Ee.
+Qed.
+
+Lemma between_parse' : forall p s b p' s', between' p ->
+  up_parse p s b = Ok (p', s', unilE) -> fresh_like p'.
+Proof.
+  intros p s b p' s' Hb H.
+  apply (between_writes' [b] p s p' s' Hb).
+  cbn [up_writes]. unfold up_parse in H. unfold up_write.
+  destruct (ufeed (2 * length b + 2) p s b) as [[[p1 s1] e]|a|a|] eqn:Ef; try discriminate H.
+  destruct (unil e) eqn:Ee; [|inversion H; subst; discriminate Ee].
+  apply unil_true in Ee. subst e. rewrite unil_nil.
+  destruct Hb as (HI & _). apply feed_sound in Ef. pose proof (Feed_inv _ _ _ _ _ Ef HI) as HI1.
+  rewrite set_err_same by apply HI1. exact H.
+Qed.
+
+(* C17, session form, final version: no premise on the input at all.  For every fresh-like
+   parser p, every operation and every visitor behaviour (a) the run from p and the run from a
+   new parser deliver the same events and return the same verdict (or fail in the same way);
+   (b) if the operation is accepted - whatever the input was - the parser is fresh-like again:
+   state stack, valueState stack and length stack are empty, nothing is buffered, no marker or
+   error is pending.  (The guard no_zero_typed of C17_ubj_session_step is not needed: the
+   balance of the valueState stack holds for containers of zero-sized elements, too.) *)
+Theorem C17_ubj_session_step_noguard : forall p s op, fresh_like p ->
+  out_rel (uop_run uparser0 s op) (uop_run p s op) /\
+  (forall p' s', uop_run p s op = Ok (p', s', unilE) -> fresh_like p').
+Proof.
+  intros p s op Hf.
+  destruct (C17_ubj_session_step p s op Hf) as [A _].
+  split; [exact A|].
+  intros p' s' H. rewrite H in A. destruct (out_rel_nil _ _ _ A) as (p0 & E0 & Hv).
+  apply (veq_trans _ p0); [|exact Hv].
+  destruct op as [b|cs]; cbn [uop_run] in *.
+  - eapply between_parse'; [exact between0'|exact E0].
+  - eapply between_writes'; [exact between0'|exact E0].
+Qed.
+
+Theorem C17_ubj_session_noguard : forall ops p s, fresh_like p ->
+  out_rel (usession_new s ops) (usession p s ops).
+Proof.
+  induction ops as [|op r IH]; intros p s Hf; cbn [usession usession_new].
+  - cbn [out_rel]. auto.
+  - destruct (C17_ubj_session_step_noguard p s op Hf) as [A B].
+    destruct (uop_run uparser0 s op) as [[[p0 s0] e0]|a|a|];
+      destruct (uop_run p s op) as [[[p1 s1] e1]|a'|a'|]; cbn [out_rel] in A; try contradiction; try exact A.
+    destruct A as (-> & -> & Hv).
+    destruct (unil e0) eqn:Ee; [|cbn [out_rel]; auto].
+    apply unil_true in Ee. subst e0. apply IH. apply (B p1 s0 eq_refl).
+Qed.
+
+(* after ANY accepted input the parser is as new, except for the dead field up_vtype *)
+Corollary C17_ubj_run_parse_fresh_noguard : forall vfail b evs p,
+  urun_parse vfail b = Ok (evs, unilE, p) -> fresh_like p.
+Proof.
+  intros vfail b evs p H. unfold urun_parse in H.
+  destruct (up_parse uparser0 (sink0 vfail) b) as [[[p' s'] e']|a|a|] eqn:E; try discriminate H.
+  inversion H; subst.
+  exact (proj2 (C17_ubj_session_step_noguard uparser0 (sink0 vfail) (OpParse b) fresh_like0) _ _ E).
+Qed.
+
+Corollary C17_ubj_run_chunks_fresh_noguard : forall vfail chunks evs p,
+  urun_chunks vfail chunks = Ok (evs, unilE, p) -> fresh_like p.
+Proof.
+  intros vfail cs evs p H. unfold urun_chunks in H.
+  destruct (up_writes uparser0 (sink0 vfail) cs) as [[[p' s'] e']|a|a|] eqn:E; try discriminate H.
+  inversion H; subst.
+  exact (proj2 (C17_ubj_session_step_noguard uparser0 (sink0 vfail) (OpWrites cs) fresh_like0) _ _ E).
+Qed.
+
 Print Assumptions C17_ubj_parse_vtype_dead.
 Print Assumptions C17_ubj_writes_vtype_dead.
 Print Assumptions C17_ubj_session_step.
@@ -883,3 +2667,19 @@ Print Assumptions C17_ubj_writes_reuse.
 Print Assumptions C17_ubj_run_parse_fresh.
 Print Assumptions C17_ubj_run_chunks_fresh.
 Print Assumptions C17_ubj_session.
+Print Assumptions mrun_tree.
+Print Assumptions step_mon.
+Print Assumptions C18_ubj_next_tree.
+Print Assumptions exec_done_ext.
+Print Assumptions udec_next_sound.
+Print Assumptions C18_ubj_script_independent_next.
+Print Assumptions C18_ubj_script_independent.
+Print Assumptions C18_ubj_scripts_same_data_next.
+Print Assumptions C18_ubj_reader_as_bytes_next.
+Print Assumptions C18_ubj_reader_stream_partial.
+Print Assumptions C18_ubj_reader_stream.
+Print Assumptions C18_ubj_next_one_value.
+Print Assumptions C17_ubj_session_step_noguard.
+Print Assumptions C17_ubj_session_noguard.
+Print Assumptions C17_ubj_run_parse_fresh_noguard.
+Print Assumptions C17_ubj_run_chunks_fresh_noguard.
